@@ -1,5 +1,6 @@
 (* Generated.v — written by tools/gen from the Go source in /repo on every run. Do not edit. *)
 From Coq Require Import ZArith NArith List String.
+From GK Require Import GExpr.
 Import ListNotations.
 Open Scope Z_scope.
 Open Scope string_scope.
@@ -378,3 +379,1120 @@ Definition g_reach : list (string * list string) := [
 
 (* lock order: (A, B) = lock B is acquired, directly or below a callee, while lock A is held *)
 Definition g_lock_order : list (string * string) := [("freeNodeLocLock", "freeRootNodeLocLock"); ("freeNodeLock", "freeNodeLocLock"); ("freeNodeLock", "freeRootNodeLocLock"); ("freeNodeLock", "itemLocGL"); ("freeNodeLock", "nodeLocGL"); ("rootLock", "freeNodeLocLock"); ("rootLock", "freeNodeLock"); ("rootLock", "freeRootNodeLocLock"); ("rootLock", "itemLocGL"); ("rootLock", "nodeLocGL")].
+
+(* the function bodies, translated statement by statement (GExpr.v); opaque nodes keep their source text *)
+Definition g_code : list (string * list gstmt) := [
+  ("<lit:Collection.AllocStats#1>",
+    [SAssign [(GVar "res")] "=" [(GVar "t.allocStats")]]);
+  ("<lit:Collection.EvictSomeItems#1>",
+    [SIf [SAssign [(GVar "j")] ":=" [(GCall "n.Evict" [])]] (GBin "!=" (GVar "j") GNil) [SExpr (GCall "t.store.ItemDecRef" [(GVar "t"); (GVar "j")]);
+    SIncDec (GVar "numEvicted") true] [];
+    SAssign [(GVar "next")] ":=" [(GUn "&" (GVar "n.left"))];
+    SIf [] (GBin "==" (GBin "&" (GCall "rand.Int" []) (GInt 1)) (GInt 1)) [SAssign [(GVar "next")] "=" [(GUn "&" (GVar "n.right"))]] [];
+    SIf [] (GCall "next.isEmpty" []) [SReturn [GNil; (GVar "false")]] [];
+    SReturn [(GVar "next"); (GVar "true")]]);
+  ("<lit:Collection.Len#1>",
+    [SIncDec (GVar "l") true;
+    SReturn [(GVar "true")]]);
+  ("<lit:Collection.MaxItem#1>",
+    [SReturn [(GUn "&" (GVar "n.right")); (GVar "true")]]);
+  ("<lit:Collection.MinItem#1>",
+    [SReturn [(GUn "&" (GVar "n.left")); (GVar "true")]]);
+  ("<lit:Collection.VisitItemsAscend#1>",
+    [SReturn [(GCall "v" [(GVar "i")])]]);
+  ("<lit:Collection.VisitItemsAscendBlockEx#1>",
+    [SIf [] (GBin "==" (GVar "j") (GInt 0)) [SAssign [(GVar "blockStore")] "=" [(GCall "append" [(GVar "blockStore"); (GVar "i.Key")])];
+    SAssign [(GVar "j")] "=" [(GInt 1)]] [SIf [] (GBin ">=" (GVar "j") (GVar "lenBlock")) [SAssign [(GVar "j")] "=" [(GInt 0)]] [SIncDec (GVar "j") true]];
+    SReturn [(GVar "true")]]);
+  ("<lit:Collection.VisitItemsAscendBlockEx#2>",
+    [SIf [] (GBin ">" (GVar "j") (GVar "lenBlock")) [SExpr (GCall "panic" [(GLit """impossible""")])] [SIf [] (GBin "==" (GVar "j") (GVar "lenBlock")) [SExpr (GCall "visitor" [(GVar "i"); (GVar "depth")]);
+    SReturn [(GVar "false")]] []];
+    SIncDec (GVar "j") true;
+    SReturn [(GCall "visitor" [(GVar "i"); (GVar "depth")])]]);
+  ("<lit:Collection.VisitItemsAscendEx#1>",
+    [SIf [] (GBin "&&" (GBin "!=" (GVar "prevVisitItem") GNil) (GBin ">" (GCall "t.compare" [(GVar "prevVisitItem.Key"); (GVar "i.Key")]) (GInt 0))) [SAssign [(GVar "errCheckedVisitor")] "=" [(GCall "fmt.Errorf" [(GBin "+" (GLit """corrupted / out-of-order index""") (GLit """, key: %s vs %s, coll: %p, collName: %s, store: %p, storeFile: %v""")); (GCall "string" [(GVar "prevVisitItem.Key")]); (GCall "string" [(GVar "i.Key")]); (GVar "t"); (GVar "t.name"); (GVar "t.store"); (GVar "t.store.file")])];
+    SReturn [(GVar "false")]] [];
+    SAssign [(GVar "prevVisitItem")] "=" [(GVar "i")];
+    SReturn [(GCall "visitor" [(GVar "i"); (GVar "depth")])]]);
+  ("<lit:Collection.VisitItemsDescend#1>",
+    [SReturn [(GCall "v" [(GVar "i")])]]);
+  ("<lit:Collection.VisitItemsRandom#1>",
+    [SIf [] (GBin "==" (GVar "j") (GInt 0)) [SAssign [(GVar "blockStore")] "=" [(GCall "append" [(GVar "blockStore"); (GVar "i.Key")])];
+    SAssign [(GVar "j")] "=" [(GInt 1)]] [SIf [] (GBin ">=" (GVar "j") (GVar "lenBlock")) [SAssign [(GVar "j")] "=" [(GInt 0)]] [SIncDec (GVar "j") true]];
+    SReturn [(GVar "true")]]);
+  ("<lit:Collection.VisitItemsRandom#2>",
+    [SIf [] (GVar "first") [SAssign [(GVar "first")] "=" [(GVar "false")];
+    SReturn [(GCall "visitor" [(GVar "itm"); (GVar "depth")])]] [];
+    SAssign [(GVar "first")] "=" [(GVar "true")];
+    SAssign [(GVar "advanced")] "=" [(GVar "true")];
+    SAssign [(GCall "[]" [(GVar "blockStore"); (GVar "i")])] "=" [(GVar "itm.Key")];
+    SReturn [(GVar "false")]]);
+  ("<lit:Collection.iterate#1>",
+    [SOther "it.items <- i";
+    SAssign [(GVar "_"); (GVar "ok")] ":=" [(GUn "<-" (GVar "it.next"))];
+    SReturn [(GVar "ok")]]);
+  ("<lit:Collection.iteratorVisitorAscend#1>",
+    [SReturn [(GCall "c.VisitItemsAscend" [(GVar "it.target"); (GVar "it.withValue"); (GVar "v")])]]);
+  ("<lit:Collection.iteratorVisitorDescend#1>",
+    [SReturn [(GCall "c.VisitItemsDescend" [(GVar "it.target"); (GVar "it.withValue"); (GVar "v")])]]);
+  ("<lit:Store.CopyTo#1>",
+    [SIf [SAssign [(GVar "errCopyItem")] "=" [(GCall "dstColl.SetItem" [(GVar "i")])]] (GBin "!=" (GVar "errCopyItem") GNil) [SReturn [(GVar "false")]] [];
+    SIncDec (GVar "numItems") true;
+    SIf [] (GBin ">" (GVar "depth") (GVar "maxDepth")) [SAssign [(GVar "maxDepth")] "=" [(GVar "depth")]] [];
+    SIf [] (GBin "&&" (GBin ">" (GVar "flushEvery") (GInt 0)) (GBin "==" (GBin "%" (GVar "numItems") (GVar "flushEvery")) (GInt 0))) [SExpr (GCall "srcColl.EvictSomeItems" []);
+    SIf [SAssign [(GVar "errCopyItem")] "=" [(GCall "dstStore.Flush" [])]] (GBin "!=" (GVar "errCopyItem") GNil) [SReturn [(GVar "false")]] []] [];
+    SReturn [(GVar "true")]]);
+  ("Collection.AllocStats",
+    [SExpr (GCall "withAllocLocks" [(GFun "<lit:Collection.AllocStats#1>")]);
+    SReturn [(GVar "res")]]);
+  ("Collection.Delete",
+    [SIf [] (GVar "t.store.readOnly") [SReturn [(GVar "false"); (GCall "errors.New" [(GLit """store is read only""")])]] [];
+    SAssign [(GVar "rnl")] ":=" [(GCall "t.rootAddRef" [])];
+    SDefer (GCall "t.rootDecRef" [(GVar "rnl")]);
+    SAssign [(GVar "root")] ":=" [(GVar "rnl.root")];
+    SAssign [(GVar "i"); (GVar "err")] ":=" [(GCall "t.GetItem" [(GVar "key"); (GVar "false")])];
+    SIf [] (GBin "||" (GBin "!=" (GVar "err") GNil) (GBin "==" (GVar "i") GNil)) [SReturn [(GVar "false"); (GVar "err")]] [];
+    SExpr (GCall "t.store.ItemDecRef" [(GVar "t"); (GVar "i")]);
+    SAssign [(GVar "left"); (GVar "middle"); (GVar "right"); (GVar "err")] ":=" [(GCall "t.store.split" [(GVar "t"); (GVar "root"); (GVar "key"); (GUn "&" (GVar "rnl.reclaimMark"))])];
+    SIf [] (GBin "!=" (GVar "err") GNil) [SExpr (GCall "t.unmarkReclaimable" [(GVar "root"); (GUn "&" (GVar "rnl.reclaimMark"))]);
+    SReturn [(GVar "false"); (GVar "err")]] [];
+    SDefer (GCall "t.freeNodeLoc" [(GVar "left")]);
+    SDefer (GCall "t.freeNodeLoc" [(GVar "right")]);
+    SDefer (GCall "t.freeNodeLoc" [(GVar "middle")]);
+    SIf [] (GCall "middle.isEmpty" []) [SReturn [(GVar "false"); (GCall "fmt.Errorf" [(GLit """concurrent delete, key: %v"""); (GVar "key")])]] [];
+    SAssign [(GVar "r"); (GVar "err")] ":=" [(GCall "t.store.join" [(GVar "t"); (GVar "left"); (GVar "right"); (GUn "&" (GVar "rnl.reclaimMark"))])];
+    SIf [] (GBin "!=" (GVar "err") GNil) [SExpr (GCall "t.unmarkReclaimable" [(GVar "root"); (GUn "&" (GVar "rnl.reclaimMark"))]);
+    SReturn [(GVar "false"); (GVar "err")]] [];
+    SAssign [(GVar "rnlNew")] ":=" [(GCall "t.mkRootNodeLoc" [(GVar "r")])];
+    SAssign [(GCall "[]" [(GVar "rnlNew.reclaimLater"); (GInt 0)])] "=" [(GCall "t.reclaimMarkUpdate" [(GVar "left"); (GUn "&" (GVar "rnl.reclaimMark")); (GUn "&" (GVar "rnlNew.reclaimMark"))])];
+    SAssign [(GCall "[]" [(GVar "rnlNew.reclaimLater"); (GInt 1)])] "=" [(GCall "t.reclaimMarkUpdate" [(GVar "right"); (GUn "&" (GVar "rnl.reclaimMark")); (GUn "&" (GVar "rnlNew.reclaimMark"))])];
+    SAssign [(GCall "[]" [(GVar "rnlNew.reclaimLater"); (GInt 2)])] "=" [(GCall "t.reclaimMarkUpdate" [(GVar "middle"); (GUn "&" (GVar "rnl.reclaimMark")); (GUn "&" (GVar "rnlNew.reclaimMark"))])];
+    SExpr (GCall "t.markReclaimable" [(GCall "[]" [(GVar "rnlNew.reclaimLater"); (GInt 2)]); (GUn "&" (GVar "rnlNew.reclaimMark"))]);
+    SIf [] (GUn "!" (GCall "t.rootCAS" [(GVar "rnl"); (GVar "rnlNew")])) [SReturn [(GVar "false"); (GCall "errors.New" [(GLit """concurrent mutation attempted""")])]] [];
+    SExpr (GCall "t.rootDecRef" [(GVar "rnl")]);
+    SReturn [(GVar "true"); GNil]]);
+  ("Collection.DeleteAny",
+    [SReturn [(GCall "t.Delete" [(GCall "toBa" [(GVar "key")])])]]);
+  ("Collection.EvictSomeItems",
+    [SIf [] (GVar "t.store.readOnly") [SReturn [(GInt 0)]] [];
+    SAssign [(GVar "i"); (GVar "err")] ":=" [(GCall "t.store.walk" [(GVar "t"); (GVar "false"); (GFun "<lit:Collection.EvictSomeItems#1>")])];
+    SIf [] (GBin "&&" (GBin "!=" (GVar "i") GNil) (GBin "!=" (GVar "err") GNil)) [SExpr (GCall "t.store.ItemDecRef" [(GVar "t"); (GVar "i")])] [];
+    SReturn [(GVar "numEvicted")]]);
+  ("Collection.Exist",
+    [SAssign [(GVar "val"); (GVar "_")] ":=" [(GCall "t.GetItem" [(GVar "key"); (GVar "false")])];
+    SIf [] (GBin "!=" (GVar "val") GNil) [SExpr (GCall "t.store.ItemDecRef" [(GVar "t"); (GVar "val")]);
+    SReturn [(GVar "true")]] [];
+    SReturn [(GVar "false")]]);
+  ("Collection.ExistAny",
+    [SReturn [(GCall "t.Exist" [(GCall "toBa" [(GVar "key")])])]]);
+  ("Collection.Get",
+    [SAssign [(GVar "i"); (GVar "err")] ":=" [(GCall "t.GetItem" [(GVar "key"); (GVar "true")])];
+    SIf [] (GBin "!=" (GVar "err") GNil) [SReturn [GNil; (GVar "err")]] [];
+    SIf [] (GBin "!=" (GVar "i") GNil) [SReturn [(GVar "i.Val"); GNil]] [];
+    SReturn [GNil; GNil]]);
+  ("Collection.GetAny",
+    [SReturn [(GCall "t.Get" [(GCall "toBa" [(GVar "key")])])]]);
+  ("Collection.GetItem",
+    [SAssign [(GVar "rnl")] ":=" [(GCall "t.rootAddRef" [])];
+    SDefer (GCall "t.rootDecRef" [(GVar "rnl")]);
+    SAssign [(GVar "n")] ":=" [(GVar "rnl.root")];
+    SFor [] None [] [SAssign [(GVar "nNode"); (GVar "err")] ":=" [(GCall "n.read" [(GVar "t.store")])];
+    SIf [] (GBin "||" (GBin "||" (GBin "!=" (GVar "err") GNil) (GCall "n.isEmpty" [])) (GBin "==" (GVar "nNode") GNil)) [SReturn [GNil; (GVar "err")]] [];
+    SAssign [(GVar "i")] ":=" [(GUn "&" (GVar "nNode.item"))];
+    SAssign [(GVar "iItem"); (GVar "err")] ":=" [(GCall "i.read" [(GVar "t"); (GVar "false")])];
+    SIf [] (GBin "!=" (GVar "err") GNil) [SReturn [GNil; (GVar "err")]] [];
+    SIf [] (GBin "||" (GBin "==" (GVar "iItem") GNil) (GBin "==" (GVar "iItem.Key") GNil)) [SReturn [GNil; (GCall "errors.New" [(GLit """missing item after item.read() in GetItem()""")])]] [];
+    SAssign [(GVar "c")] ":=" [(GCall "t.compare" [(GVar "key"); (GVar "iItem.Key")])];
+    SIf [] (GBin "<" (GVar "c") (GInt 0)) [SAssign [(GVar "n")] "=" [(GUn "&" (GVar "nNode.left"))]] [SIf [] (GBin ">" (GVar "c") (GInt 0)) [SAssign [(GVar "n")] "=" [(GUn "&" (GVar "nNode.right"))]] [SIf [] (GVar "withValue") [SAssign [(GVar "iItem"); (GVar "err")] "=" [(GCall "i.read" [(GVar "t"); (GVar "withValue")])];
+    SIf [] (GBin "!=" (GVar "err") GNil) [SReturn [GNil; (GVar "err")]] []] [];
+    SExpr (GCall "t.store.ItemAddRef" [(GVar "t"); (GVar "iItem")]);
+    SReturn [(GVar "iItem"); GNil]]]]]);
+  ("Collection.GetTotals",
+    [SAssign [(GVar "rnl")] ":=" [(GCall "t.rootAddRef" [])];
+    SDefer (GCall "t.rootDecRef" [(GVar "rnl")]);
+    SAssign [(GVar "n")] ":=" [(GVar "rnl.root")];
+    SAssign [(GVar "nNode"); (GVar "err")] ":=" [(GCall "n.read" [(GVar "t.store")])];
+    SIf [] (GBin "||" (GBin "||" (GBin "!=" (GVar "err") GNil) (GCall "n.isEmpty" [])) (GBin "==" (GVar "nNode") GNil)) [SReturn [(GInt 0); (GInt 0); (GVar "err")]] [];
+    SReturn [(GVar "nNode.numNodes"); (GVar "nNode.numBytes"); GNil]]);
+  ("Collection.IterateAscend",
+    [SAssign [(GVar "it")] ":=" [(GCall "newIterator" [(GVar "target"); (GVar "withValue")])];
+    SGo (GCall "t.iteratorVisitorAscend" [(GVar "it")]);
+    SReturn [(GVar "it")]]);
+  ("Collection.IterateDescend",
+    [SAssign [(GVar "it")] ":=" [(GCall "newIterator" [(GVar "target"); (GVar "withValue")])];
+    SGo (GCall "t.iteratorVisitorDescend" [(GVar "it")]);
+    SReturn [(GVar "it")]]);
+  ("Collection.Len",
+    [SAssign [(GVar "visitor")] ":=" [(GFun "<lit:Collection.Len#1>")];
+    SAssign [(GVar "si"); (GVar "err")] ":=" [(GCall "t.MinItem" [(GVar "false")])];
+    SIf [] (GBin "||" (GBin "!=" (GVar "err") GNil) (GBin "==" (GVar "si") GNil)) [SReturn []] [];
+    SDefer (GCall "t.store.ItemDecRef" [(GVar "t"); (GVar "si")]);
+    SAssign [(GVar "err")] "=" [(GCall "t.VisitItemsAscendEx" [(GVar "si.Key"); (GVar "false"); (GVar "visitor")])];
+    SReturn []]);
+  ("Collection.MarshalJSON",
+    [SAssign [(GVar "rnl")] ":=" [(GCall "t.rootAddRef" [])];
+    SDefer (GCall "t.rootDecRef" [(GVar "rnl")]);
+    SReturn [(GCall "rnl.MarshalJSON" [])]]);
+  ("Collection.MaxItem",
+    [SReturn [(GCall "t.store.walk" [(GVar "t"); (GVar "withValue"); (GFun "<lit:Collection.MaxItem#1>")])]]);
+  ("Collection.MinItem",
+    [SReturn [(GCall "t.store.walk" [(GVar "t"); (GVar "withValue"); (GFun "<lit:Collection.MinItem#1>")])]]);
+  ("Collection.Name",
+    [SReturn [(GVar "t.name")]]);
+  ("Collection.Set",
+    [SReturn [(GCall "t.SetItem" [(GUn "&" (GOther "Item{Key: key, Val: val, Priority: rand.Int31()}"))])]]);
+  ("Collection.SetAny",
+    [SReturn [(GCall "t.Set" [(GCall "toBa" [(GVar "key")]); (GCall "toBa" [(GVar "val")])])]]);
+  ("Collection.SetItem",
+    [SIf [] (GVar "t.store.readOnly") [SReturn [(GCall "errors.New" [(GLit """store is read only""")])]] [];
+    SIf [] (GBin "||" (GBin "||" (GBin "||" (GBin "==" (GVar "item.Key") GNil) (GBin ">" (GCall "len" [(GVar "item.Key")]) (GInt 65535))) (GBin "==" (GCall "len" [(GVar "item.Key")]) (GInt 0))) (GBin "==" (GVar "item.Val") GNil)) [SReturn [(GCall "errors.New" [(GLit """Item.Key/Val missing or too long""")])]] [];
+    SIf [] (GBin "<" (GVar "item.Priority") (GInt 0)) [SReturn [(GCall "errors.New" [(GLit """Item.Priority must be non-negative""")])]] [];
+    SAssign [(GVar "rnl")] ":=" [(GCall "t.rootAddRef" [])];
+    SDefer (GCall "t.rootDecRef" [(GVar "rnl")]);
+    SAssign [(GVar "root")] ":=" [(GVar "rnl.root")];
+    SAssign [(GVar "n")] ":=" [(GCall "t.mkNode" [GNil; GNil; GNil; (GInt 1); (GBin "+" (GCall "uint64" [(GCall "len" [(GVar "item.Key")])]) (GCall "uint64" [(GCall "item.NumValBytes" [(GVar "t")])]))])];
+    SExpr (GCall "t.store.ItemAddRef" [(GVar "t"); (GVar "item")]);
+    SAssign [(GVar "n.item.item")] "=" [(GVar "item")];
+    SAssign [(GVar "nloc")] ":=" [(GCall "t.mkNodeLoc" [(GVar "n")])];
+    SDefer (GCall "t.freeNodeLoc" [(GVar "nloc")]);
+    SAssign [(GVar "r"); (GVar "err")] ":=" [(GCall "t.store.union" [(GVar "t"); (GVar "root"); (GVar "nloc"); (GUn "&" (GVar "rnl.reclaimMark"))])];
+    SIf [] (GBin "!=" (GVar "err") GNil) [SExpr (GCall "t.unmarkReclaimable" [(GVar "root"); (GUn "&" (GVar "rnl.reclaimMark"))]);
+    SReturn [(GVar "err")]] [];
+    SAssign [(GVar "rnlNew")] ":=" [(GCall "t.mkRootNodeLoc" [(GVar "r")])];
+    SAssign [(GCall "[]" [(GVar "rnlNew.reclaimLater"); (GInt 0)])] "=" [(GCall "t.reclaimMarkUpdate" [(GVar "nloc"); (GUn "&" (GVar "rnl.reclaimMark")); (GUn "&" (GVar "rnlNew.reclaimMark"))])];
+    SIf [] (GUn "!" (GCall "t.rootCAS" [(GVar "rnl"); (GVar "rnlNew")])) [SReturn [(GCall "errors.New" [(GLit """concurrent mutation attempted""")])]] [];
+    SExpr (GCall "t.rootDecRef" [(GVar "rnl")]);
+    SReturn [GNil]]);
+  ("Collection.UnmarshalJSON",
+    [SAssign [(GVar "p")] ":=" [(GOther "ploc{}")];
+    SIf [SAssign [(GVar "err")] ":=" [(GCall "json.Unmarshal" [(GVar "d"); (GUn "&" (GVar "p"))])]] (GBin "!=" (GVar "err") GNil) [SReturn [(GVar "err")]] [];
+    SIf [] (GBin "==" (GVar "t.rootLock") GNil) [SAssign [(GVar "t.rootLock")] "=" [(GUn "&" (GOther "sync.Mutex{}"))]] [];
+    SAssign [(GVar "nloc")] ":=" [(GCall "t.mkNodeLoc" [GNil])];
+    SAssign [(GVar "nloc.loc")] "=" [(GUn "&" (GVar "p"))];
+    SIf [] (GUn "!" (GCall "t.rootCAS" [GNil; (GCall "t.mkRootNodeLoc" [(GVar "nloc")])])) [SReturn [(GCall "errors.New" [(GLit """concurrent mutation during UnmarshalJSON()""")])]] [];
+    SReturn [GNil]]);
+  ("Collection.VisitItemsAscend",
+    [SReturn [(GCall "t.VisitItemsAscendEx" [(GVar "target"); (GVar "withValue"); (GFun "<lit:Collection.VisitItemsAscend#1>")])]]);
+  ("Collection.VisitItemsAscendBlockEx",
+    [SAssign [(GVar "numBlocks"); (GVar "lenBlock"); (GVar "err")] ":=" [(GCall "t.determineBlocks" [])];
+    SIf [] (GBin "!=" (GVar "err") GNil) [SReturn [(GVar "err")]] [];
+    SIf [] (GBin "||" (GBin "<" (GVar "lenBlock") (GInt 1)) (GBin "<" (GVar "numBlocks") (GInt 1))) [SReturn [(GCall "fmt.Errorf" [(GLit """impossible block sizes,%d,%d"""); (GVar "lenBlock"); (GVar "numBlocks")])]] [];
+    SAssign [(GVar "blockStore")] ":=" [(GCall "make" [(GOther "[][]byte"); (GInt 0); (GVar "numBlocks")])];
+    SVar "j" None;
+    SAssign [(GVar "v")] ":=" [(GFun "<lit:Collection.VisitItemsAscendBlockEx#1>")];
+    SAssign [(GVar "si"); (GVar "err")] ":=" [(GCall "t.MinItem" [(GVar "false")])];
+    SIf [] (GBin "!=" (GVar "err") GNil) [SReturn [(GVar "err")]] [];
+    SDefer (GCall "t.store.ItemDecRef" [(GVar "t"); (GVar "si")]);
+    SAssign [(GVar "err")] "=" [(GCall "t.VisitItemsAscendEx" [(GVar "si.Key"); (GVar "false"); (GVar "v")])];
+    SIf [] (GBin "!=" (GVar "err") GNil) [SReturn [(GVar "err")]] [];
+    SIf [] (GBin "!=" (GVar "blockMan") GNil) [SAssign [(GVar "blockStore")] "=" [(GCall "blockMan" [(GVar "blockStore")])]] [];
+    SRange (GVar "_") (GVar "si") (GVar "blockStore") [SAssign [(GVar "j")] ":=" [(GInt 0)];
+    SAssign [(GVar "vis")] ":=" [(GFun "<lit:Collection.VisitItemsAscendBlockEx#2>")];
+    SAssign [(GVar "err")] "=" [(GCall "t.VisitItemsAscendEx" [(GVar "si"); (GVar "withValue"); (GVar "vis")])];
+    SIf [] (GBin "!=" (GVar "err") GNil) [SReturn [(GVar "err")]] []];
+    SReturn [GNil]]);
+  ("Collection.VisitItemsAscendEx",
+    [SAssign [(GVar "rnl")] ":=" [(GCall "t.rootAddRef" [])];
+    SDefer (GCall "t.rootDecRef" [(GVar "rnl")]);
+    SVar "prevVisitItem" None;
+    SVar "errCheckedVisitor" None;
+    SAssign [(GVar "checkedVisitor")] ":=" [(GFun "<lit:Collection.VisitItemsAscendEx#1>")];
+    SAssign [(GVar "_"); (GVar "err")] ":=" [(GCall "t.store.visitNodes" [(GVar "t"); (GVar "rnl.root"); (GVar "target"); (GVar "withValue"); (GVar "checkedVisitor"); (GInt 0); (GVar "ascendChoice")])];
+    SIf [] (GBin "!=" (GVar "errCheckedVisitor") GNil) [SReturn [(GVar "errCheckedVisitor")]] [];
+    SReturn [(GVar "err")]]);
+  ("Collection.VisitItemsDescend",
+    [SReturn [(GCall "t.VisitItemsDescendEx" [(GVar "target"); (GVar "withValue"); (GFun "<lit:Collection.VisitItemsDescend#1>")])]]);
+  ("Collection.VisitItemsDescendEx",
+    [SAssign [(GVar "rnl")] ":=" [(GCall "t.rootAddRef" [])];
+    SDefer (GCall "t.rootDecRef" [(GVar "rnl")]);
+    SAssign [(GVar "_"); (GVar "err")] ":=" [(GCall "t.store.visitNodes" [(GVar "t"); (GVar "rnl.root"); (GVar "target"); (GVar "withValue"); (GVar "visitor"); (GInt 0); (GVar "descendChoice")])];
+    SReturn [(GVar "err")]]);
+  ("Collection.VisitItemsRandom",
+    [SAssign [(GVar "numBlocks"); (GVar "lenBlock"); (GVar "err")] ":=" [(GCall "t.determineBlocks" [])];
+    SIf [] (GBin "!=" (GVar "err") GNil) [SReturn [(GVar "err")]] [];
+    SIf [] (GBin "||" (GBin "<" (GVar "lenBlock") (GInt 1)) (GBin "<" (GVar "numBlocks") (GInt 1))) [SReturn [(GCall "fmt.Errorf" [(GLit """impossible block sizes,%d,%d"""); (GVar "lenBlock"); (GVar "numBlocks")])]] [];
+    SAssign [(GVar "blockStore")] ":=" [(GCall "make" [(GOther "[][]byte"); (GInt 0); (GVar "numBlocks")])];
+    SVar "j" None;
+    SAssign [(GVar "v")] ":=" [(GFun "<lit:Collection.VisitItemsRandom#1>")];
+    SAssign [(GVar "si"); (GVar "err")] ":=" [(GCall "t.MinItem" [(GVar "false")])];
+    SIf [] (GBin "!=" (GVar "err") GNil) [SReturn [(GVar "err")]] [];
+    SDefer (GCall "t.store.ItemDecRef" [(GVar "t"); (GVar "si")]);
+    SAssign [(GVar "err")] "=" [(GCall "t.VisitItemsAscendEx" [(GVar "si.Key"); (GVar "false"); (GVar "v")])];
+    SIf [] (GBin "!=" (GVar "err") GNil) [SReturn [(GVar "err")]] [];
+    SAssign [(GVar "blockStore")] "=" [(GCall "RandBm" [(GVar "blockStore")])];
+    SFor [SAssign [(GVar "j")] ":=" [(GBin "+" (GVar "lenBlock") (GInt 1))]] (Some (GBin ">" (GVar "j") (GInt 0))) [SIncDec (GVar "j") false] [SRange (GVar "i") (GVar "si") (GVar "blockStore") [SIf [] (GBin "==" (GVar "si") GNil) [SBranch "continue"] [];
+    SAssign [(GVar "first")] ":=" [(GVar "true")];
+    SAssign [(GVar "advanced")] ":=" [(GVar "false")];
+    SAssign [(GVar "vis")] ":=" [(GFun "<lit:Collection.VisitItemsRandom#2>")];
+    SAssign [(GVar "err")] "=" [(GCall "t.VisitItemsAscendEx" [(GVar "si"); (GVar "true"); (GVar "vis")])];
+    SIf [] (GBin "!=" (GVar "err") GNil) [SReturn [(GVar "err")]] [];
+    SIf [] (GUn "!" (GVar "advanced")) [SAssign [(GCall "[]" [(GVar "blockStore"); (GVar "i")])] "=" [GNil]] []]];
+    SReturn [GNil]]);
+  ("Collection.Write",
+    [SIf [] (GVar "t.store.readOnly") [SReturn [(GCall "errors.New" [(GLit """store is read only""")])]] [];
+    SAssign [(GVar "rnl")] ":=" [(GCall "t.rootAddRef" [])];
+    SDefer (GCall "t.rootDecRef" [(GVar "rnl")]);
+    SReturn [(GCall "t.write" [(GVar "rnl.root")])]]);
+  ("Collection.closeCollection",
+    [SIf [] (GBin "==" (GVar "t") GNil) [SReturn []] [];
+    SExpr (GCall "t.rootLock.Lock" []);
+    SAssign [(GVar "r")] ":=" [(GVar "t.root")];
+    SAssign [(GVar "t.root")] "=" [GNil];
+    SExpr (GCall "t.rootLock.Unlock" []);
+    SIf [] (GBin "!=" (GVar "r") GNil) [SExpr (GCall "t.rootDecRef" [(GVar "r")])] []]);
+  ("Collection.determineBlocks",
+    [SVar "cnt" None;
+    SAssign [(GVar "cnt"); (GVar "err")] "=" [(GCall "t.Len" [])];
+    SIf [] (GBin "!=" (GVar "err") GNil) [SReturn [(GInt 0); (GInt 0); (GVar "err")]] [];
+    SIf [] (GBin ">" (GVar "cnt") (GInt 1024)) [SAssign [(GVar "size")] ":=" [(GBin "/" (GVar "cnt") (GInt 1024))];
+    SIf [] (GBin "!=" (GBin "%" (GVar "cnt") (GInt 1024)) (GInt 0)) [SIncDec (GVar "size") true] [];
+    SReturn [(GInt 1024); (GCall "int" [(GVar "size")]); GNil]] [];
+    SReturn [(GCall "int" [(GVar "cnt")]); (GInt 1); GNil]]);
+  ("Collection.freeNodeLoc",
+    [SIf [] (GBin "||" (GBin "==" (GVar "nloc") GNil) (GBin "==" (GVar "nloc") (GUn "&" (GVar "emptyNodeLoc")))) [SReturn []] [];
+    SIf [] (GBin "!=" (GVar "nloc.next") GNil) [SExpr (GCall "panic" [(GLit """double free nodeLoc""")])] [];
+    SAssign [(GVar "nloc.loc")] "=" [GNil];
+    SAssign [(GVar "nloc.node")] "=" [GNil];
+    SExpr (GCall "freeNodeLocLock.Lock" []);
+    SAssign [(GVar "nloc.next")] "=" [(GVar "freeNodeLocs")];
+    SAssign [(GVar "freeNodeLocs")] "=" [(GVar "nloc")];
+    SIncDec (GVar "allocStats.CurFreeNodeLocs") true;
+    SIncDec (GVar "allocStats.FreeNodeLocs") true;
+    SIncDec (GVar "t.allocStats.FreeNodeLocs") true;
+    SExpr (GCall "freeNodeLocLock.Unlock" [])]);
+  ("Collection.freeNodeUnlocked",
+    [SIf [] (GBin "||" (GBin "==" (GVar "n") GNil) (GBin "==" (GVar "n") (GVar "reclaimMark"))) [SReturn []] [];
+    SIf [] (GBin "&&" (GBin "!=" (GVar "n.next") GNil) (GBin "!=" (GVar "n.next") (GVar "reclaimMark"))) [SExpr (GCall "panic" [(GLit """double free node""")])] [];
+    SAssign [(GVar "i")] ":=" [(GCall "n.item.Item" [])];
+    SIf [] (GBin "!=" (GVar "i") GNil) [SExpr (GCall "t.store.ItemDecRef" [(GVar "t"); (GVar "i")])] [];
+    SAssign [(GVar "n.item")] "=" [(GOther "itemLoc{}")];
+    SAssign [(GVar "n.left")] "=" [(GOther "nodeLoc{}")];
+    SAssign [(GVar "n.right")] "=" [(GOther "nodeLoc{}")];
+    SAssign [(GVar "n.numNodes")] "=" [(GInt 0)];
+    SAssign [(GVar "n.numBytes")] "=" [(GInt 0)];
+    SAssign [(GVar "n.next")] "=" [(GVar "freeNodes")];
+    SAssign [(GVar "freeNodes")] "=" [(GVar "n")];
+    SIncDec (GVar "allocStats.CurFreeNodes") true;
+    SIncDec (GVar "allocStats.FreeNodes") true;
+    SIncDec (GVar "t.allocStats.FreeNodes") true]);
+  ("Collection.freeRootNodeLoc",
+    [SIf [] (GBin "==" (GVar "rnl") GNil) [SReturn []] [];
+    SIf [] (GBin "!=" (GVar "rnl.next") GNil) [SExpr (GCall "panic" [(GLit """double free rootNodeLoc""")])] [];
+    SAssign [(GVar "rnl.refs")] "=" [(GInt 0)];
+    SAssign [(GVar "rnl.root")] "=" [GNil];
+    SAssign [(GVar "rnl.chainedCollection")] "=" [GNil];
+    SAssign [(GVar "rnl.chainedRootNodeLoc")] "=" [GNil];
+    SFor [SAssign [(GVar "i")] ":=" [(GInt 0)]] (Some (GBin "<" (GVar "i") (GInt 3))) [SIncDec (GVar "i") true] [SIf [] (GBin "!=" (GCall "[]" [(GVar "rnl.reclaimLater"); (GVar "i")]) GNil) [SExpr (GCall "panic" [(GCall "fmt.Sprintf" [(GLit """non-nil rnl.reclaimLater[%d]: %v"""); (GVar "i"); (GCall "[]" [(GVar "rnl.reclaimLater"); (GVar "i")])])])] []];
+    SExpr (GCall "freeRootNodeLocLock.Lock" []);
+    SAssign [(GVar "rnl.next")] "=" [(GVar "freeRootNodeLocs")];
+    SAssign [(GVar "freeRootNodeLocs")] "=" [(GVar "rnl")];
+    SIncDec (GVar "allocStats.CurFreeRootNodeLocs") true;
+    SIncDec (GVar "allocStats.FreeRootNodeLocs") true;
+    SIncDec (GVar "t.allocStats.FreeRootNodeLocs") true;
+    SExpr (GCall "freeRootNodeLocLock.Unlock" [])]);
+  ("Collection.iterate",
+    [SDefer (GCall "func() {  close(it.items)   for range it.next {  } }" []);
+    SIf [SAssign [(GVar "_"); (GVar "ok")] ":=" [(GUn "<-" (GVar "it.next"))]] (GUn "!" (GVar "ok")) [SReturn []] [];
+    SAssign [(GVar "it.err")] "=" [(GCall "v" [(GVar "t"); (GFun "<lit:Collection.iterate#1>")])]]);
+  ("Collection.iteratorVisitorAscend",
+    [SExpr (GCall "t.iterate" [(GVar "it"); (GFun "<lit:Collection.iteratorVisitorAscend#1>")])]);
+  ("Collection.iteratorVisitorDescend",
+    [SExpr (GCall "t.iterate" [(GVar "it"); (GFun "<lit:Collection.iteratorVisitorDescend#1>")])]);
+  ("Collection.markReclaimable",
+    [SExpr (GCall "t.rootLock.Lock" []);
+    SDefer (GCall "t.rootLock.Unlock" []);
+    SIf [] (GBin "||" (GBin "||" (GBin "==" (GVar "n") GNil) (GBin "!=" (GVar "n.next") GNil)) (GBin "==" (GVar "n") (GVar "reclaimMark"))) [SReturn []] [];
+    SAssign [(GVar "n.next")] "=" [(GVar "reclaimMark")]]);
+  ("Collection.markTreeReclaimableUnlocked",
+    [SIf [] (GCall "nloc.isEmpty" []) [SReturn []] [];
+    SAssign [(GVar "n")] ":=" [(GCall "nloc.Node" [])];
+    SIf [] (GBin "||" (GBin "==" (GVar "n") GNil) (GBin "!=" (GVar "n.next") GNil)) [SReturn []] [];
+    SAssign [(GVar "n.next")] "=" [(GVar "reclaimMark")];
+    SExpr (GCall "t.markTreeReclaimableUnlocked" [(GUn "&" (GVar "n.left")); (GVar "reclaimMark")]);
+    SExpr (GCall "t.markTreeReclaimableUnlocked" [(GUn "&" (GVar "n.right")); (GVar "reclaimMark")])]);
+  ("Collection.mkNode",
+    [SExpr (GCall "freeNodeLock.Lock" []);
+    SIncDec (GVar "allocStats.MkNodes") true;
+    SIncDec (GVar "t.allocStats.MkNodes") true;
+    SAssign [(GVar "n")] ":=" [(GVar "freeNodes")];
+    SIf [] (GBin "==" (GVar "n") GNil) [SIncDec (GVar "allocStats.AllocNodes") true;
+    SIncDec (GVar "t.allocStats.AllocNodes") true;
+    SExpr (GCall "freeNodeLock.Unlock" []);
+    SExpr (GCall "atomic.AddUint64" [(GUn "&" (GVar "t.store.nodeAllocs")); (GInt 1)]);
+    SAssign [(GVar "n")] "=" [(GUn "&" (GOther "node{}"))]] [SAssign [(GVar "freeNodes")] "=" [(GVar "n.next")];
+    SIncDec (GVar "allocStats.CurFreeNodes") false;
+    SExpr (GCall "freeNodeLock.Unlock" [])];
+    SIf [] (GBin "!=" (GVar "itemIn") GNil) [SAssign [(GVar "i")] ":=" [(GCall "itemIn.Item" [])];
+    SIf [] (GBin "!=" (GVar "i") GNil) [SExpr (GCall "t.store.ItemAddRef" [(GVar "t"); (GVar "i")])] []] [];
+    SExpr (GCall "n.item.Copy" [(GVar "itemIn")]);
+    SExpr (GCall "n.left.Copy" [(GVar "leftIn")]);
+    SExpr (GCall "n.right.Copy" [(GVar "rightIn")]);
+    SAssign [(GVar "n.numNodes")] "=" [(GVar "numNodesIn")];
+    SAssign [(GVar "n.numBytes")] "=" [(GVar "numBytesIn")];
+    SAssign [(GVar "n.next")] "=" [GNil];
+    SReturn [(GVar "n")]]);
+  ("Collection.mkNodeLoc",
+    [SExpr (GCall "freeNodeLocLock.Lock" []);
+    SIncDec (GVar "allocStats.MkNodeLocs") true;
+    SIncDec (GVar "t.allocStats.MkNodeLocs") true;
+    SAssign [(GVar "nloc")] ":=" [(GVar "freeNodeLocs")];
+    SIf [] (GBin "==" (GVar "nloc") GNil) [SIncDec (GVar "allocStats.AllocNodeLocs") true;
+    SIncDec (GVar "t.allocStats.AllocNodeLocs") true;
+    SExpr (GCall "freeNodeLocLock.Unlock" []);
+    SAssign [(GVar "nloc")] "=" [(GUn "&" (GOther "nodeLoc{}"))]] [SAssign [(GVar "freeNodeLocs")] "=" [(GVar "nloc.next")];
+    SIncDec (GVar "allocStats.CurFreeNodeLocs") false;
+    SExpr (GCall "freeNodeLocLock.Unlock" [])];
+    SAssign [(GVar "nloc.loc")] "=" [GNil];
+    SAssign [(GVar "nloc.node")] "=" [(GVar "n")];
+    SAssign [(GVar "nloc.next")] "=" [GNil];
+    SReturn [(GVar "nloc")]]);
+  ("Collection.mkRootNodeLoc",
+    [SExpr (GCall "freeRootNodeLocLock.Lock" []);
+    SIncDec (GVar "allocStats.MkRootNodeLocs") true;
+    SIncDec (GVar "t.allocStats.MkRootNodeLocs") true;
+    SAssign [(GVar "rnl")] ":=" [(GVar "freeRootNodeLocs")];
+    SIf [] (GBin "==" (GVar "rnl") GNil) [SIncDec (GVar "allocStats.AllocRootNodeLocs") true;
+    SIncDec (GVar "t.allocStats.AllocRootNodeLocs") true;
+    SExpr (GCall "freeRootNodeLocLock.Unlock" []);
+    SAssign [(GVar "rnl")] "=" [(GUn "&" (GOther "rootNodeLoc{}"))]] [SAssign [(GVar "freeRootNodeLocs")] "=" [(GVar "rnl.next")];
+    SIncDec (GVar "allocStats.CurFreeRootNodeLocs") false;
+    SExpr (GCall "freeRootNodeLocLock.Unlock" [])];
+    SAssign [(GVar "rnl.refs")] "=" [(GInt 1)];
+    SAssign [(GVar "rnl.root")] "=" [(GVar "root")];
+    SAssign [(GVar "rnl.next")] "=" [GNil];
+    SAssign [(GVar "rnl.chainedCollection")] "=" [GNil];
+    SAssign [(GVar "rnl.chainedRootNodeLoc")] "=" [GNil];
+    SAssign [(GVar "rnl.superseded")] "=" [(GVar "false")];
+    SFor [SAssign [(GVar "i")] ":=" [(GInt 0)]] (Some (GBin "<" (GVar "i") (GInt 3))) [SIncDec (GVar "i") true] [SAssign [(GCall "[]" [(GVar "rnl.reclaimLater"); (GVar "i")])] "=" [GNil]];
+    SReturn [(GVar "rnl")]]);
+  ("Collection.reclaimMarkUpdate",
+    [SIf [] (GCall "nloc.isEmpty" []) [SReturn [GNil]] [];
+    SAssign [(GVar "n")] ":=" [(GCall "nloc.Node" [])];
+    SExpr (GCall "t.rootLock.Lock" []);
+    SIf [] (GBin "&&" (GBin "!=" (GVar "n") GNil) (GBin "==" (GVar "n.next") (GVar "oldReclaimMark"))) [SAssign [(GVar "n.next")] "=" [(GVar "newReclaimMark")];
+    SExpr (GCall "t.rootLock.Unlock" []);
+    SExpr (GCall "t.reclaimMarkUpdate" [(GUn "&" (GVar "n.left")); (GVar "oldReclaimMark"); (GVar "newReclaimMark")]);
+    SExpr (GCall "t.reclaimMarkUpdate" [(GUn "&" (GVar "n.right")); (GVar "oldReclaimMark"); (GVar "newReclaimMark")])] [SExpr (GCall "t.rootLock.Unlock" [])];
+    SReturn [(GVar "n")]]);
+  ("Collection.reclaimNodesUnlocked",
+    [SIf [] (GBin "==" (GVar "n") GNil) [SReturn [(GInt 0)]] [];
+    SIf [] (GBin "!=" (GVar "reclaimLater") GNil) [SFor [SAssign [(GVar "i")] ":=" [(GInt 0)]] (Some (GBin "<" (GVar "i") (GInt 3))) [SIncDec (GVar "i") true] [SIf [] (GBin "==" (GCall "[]" [(GVar "reclaimLater"); (GVar "i")]) (GVar "n")) [SAssign [(GCall "[]" [(GVar "reclaimLater"); (GVar "i")])] "=" [GNil]] []]] [];
+    SIf [] (GBin "!=" (GVar "n.next") (GVar "reclaimMark")) [SReturn [(GInt 0)]] [];
+    SVar "left" None;
+    SVar "right" None;
+    SIf [] (GUn "!" (GCall "n.left.isEmpty" [])) [SAssign [(GVar "left")] "=" [(GCall "n.left.Node" [])]] [];
+    SIf [] (GUn "!" (GCall "n.right.isEmpty" [])) [SAssign [(GVar "right")] "=" [(GCall "n.right.Node" [])]] [];
+    SExpr (GCall "t.freeNodeUnlocked" [(GVar "n"); (GVar "reclaimMark")]);
+    SAssign [(GVar "numLeft")] ":=" [(GCall "t.reclaimNodesUnlocked" [(GVar "left"); (GVar "reclaimLater"); (GVar "reclaimMark")])];
+    SAssign [(GVar "numRight")] ":=" [(GCall "t.reclaimNodesUnlocked" [(GVar "right"); (GVar "reclaimLater"); (GVar "reclaimMark")])];
+    SReturn [(GBin "+" (GBin "+" (GInt 1) (GVar "numLeft")) (GVar "numRight"))]]);
+  ("Collection.rootAddRef",
+    [SExpr (GCall "t.rootLock.Lock" []);
+    SDefer (GCall "t.rootLock.Unlock" []);
+    SIncDec (GVar "t.root.refs") true;
+    SReturn [(GVar "t.root")]]);
+  ("Collection.rootCAS",
+    [SExpr (GCall "t.rootLock.Lock" []);
+    SDefer (GCall "t.rootLock.Unlock" []);
+    SIf [] (GBin "!=" (GVar "t.root") (GVar "prev")) [SReturn [(GVar "false")]] [];
+    SAssign [(GVar "t.root")] "=" [(GVar "next")];
+    SIf [] (GBin "!=" (GVar "prev") GNil) [SAssign [(GVar "prev.superseded")] "=" [(GVar "true")]] [];
+    SIf [] (GBin "&&" (GBin "!=" (GVar "prev") GNil) (GBin ">" (GVar "prev.refs") (GInt 2))) [SIf [] (GBin "||" (GBin "!=" (GVar "prev.chainedCollection") GNil) (GBin "!=" (GVar "prev.chainedRootNodeLoc") GNil)) [SExpr (GCall "panic" [(GCall "fmt.Sprintf" [(GLit """chain already taken, coll: %v"""); (GCall "t.Name" [])])])] [];
+    SAssign [(GVar "prev.chainedCollection")] "=" [(GVar "t")];
+    SAssign [(GVar "prev.chainedRootNodeLoc")] "=" [(GVar "t.root")];
+    SIncDec (GVar "t.root.refs") true] [];
+    SReturn [(GVar "true")]]);
+  ("Collection.rootDecRef",
+    [SExpr (GCall "t.rootLock.Lock" []);
+    SExpr (GCall "freeNodeLock.Lock" []);
+    SExpr (GCall "t.rootDecRefUnlocked" [(GVar "r")]);
+    SExpr (GCall "freeNodeLock.Unlock" []);
+    SExpr (GCall "t.rootLock.Unlock" [])]);
+  ("Collection.rootDecRefUnlocked",
+    [SIncDec (GVar "r.refs") false;
+    SIf [] (GBin ">" (GVar "r.refs") (GInt 0)) [SReturn []] [];
+    SIf [] (GBin "&&" (GBin "!=" (GVar "r.chainedCollection") GNil) (GBin "!=" (GVar "r.chainedRootNodeLoc") GNil)) [SExpr (GCall "r.chainedCollection.rootDecRefUnlocked" [(GVar "r.chainedRootNodeLoc")])] [];
+    SIf [] (GUn "!" (GVar "r.superseded")) [SExpr (GCall "t.markTreeReclaimableUnlocked" [(GVar "r.root"); (GUn "&" (GVar "r.reclaimMark"))])] [];
+    SExpr (GCall "t.reclaimNodesUnlocked" [(GCall "r.root.Node" []); (GUn "&" (GVar "r.reclaimLater")); (GUn "&" (GVar "r.reclaimMark"))]);
+    SFor [SAssign [(GVar "i")] ":=" [(GInt 0)]] (Some (GBin "<" (GVar "i") (GInt 3))) [SIncDec (GVar "i") true] [SIf [] (GBin "!=" (GCall "[]" [(GVar "r.reclaimLater"); (GVar "i")]) GNil) [SExpr (GCall "t.reclaimNodesUnlocked" [(GCall "[]" [(GVar "r.reclaimLater"); (GVar "i")]); GNil; (GUn "&" (GVar "r.reclaimMark"))]);
+    SAssign [(GCall "[]" [(GVar "r.reclaimLater"); (GVar "i")])] "=" [GNil]] []];
+    SExpr (GCall "t.freeNodeLoc" [(GVar "r.root")]);
+    SExpr (GCall "t.freeRootNodeLoc" [(GVar "r")])]);
+  ("Collection.unmarkReclaimable",
+    [SIf [] (GCall "nloc.isEmpty" []) [SReturn []] [];
+    SAssign [(GVar "n")] ":=" [(GCall "nloc.Node" [])];
+    SIf [] (GBin "==" (GVar "n") GNil) [SReturn []] [];
+    SExpr (GCall "t.rootLock.Lock" []);
+    SIf [] (GBin "==" (GVar "n.next") (GVar "reclaimMark")) [SAssign [(GVar "n.next")] "=" [GNil]] [];
+    SExpr (GCall "t.rootLock.Unlock" []);
+    SExpr (GCall "t.unmarkReclaimable" [(GUn "&" (GVar "n.left")); (GVar "reclaimMark")]);
+    SExpr (GCall "t.unmarkReclaimable" [(GUn "&" (GVar "n.right")); (GVar "reclaimMark")])]);
+  ("Collection.write",
+    [SIf [SAssign [(GVar "err")] ":=" [(GCall "t.writeItems" [(GVar "nloc")])]] (GBin "!=" (GVar "err") GNil) [SReturn [(GVar "err")]] [];
+    SIf [SAssign [(GVar "err")] ":=" [(GCall "t.writeNodes" [(GVar "nloc")])]] (GBin "!=" (GVar "err") GNil) [SReturn [(GVar "err")]] [];
+    SReturn [GNil]]);
+  ("Collection.writeItems",
+    [SIf [] (GBin "||" (GBin "==" (GVar "nloc") GNil) (GUn "!" (GCall "nloc.Loc().isEmpty" []))) [SReturn [GNil]] [];
+    SAssign [(GVar "node")] ":=" [(GCall "nloc.Node" [])];
+    SIf [] (GBin "==" (GVar "node") GNil) [SReturn [GNil]] [];
+    SIf [SAssign [(GVar "err")] "=" [(GCall "t.writeItems" [(GUn "&" (GVar "node.left"))])]] (GBin "!=" (GVar "err") GNil) [SReturn [(GVar "err")]] [];
+    SIf [SAssign [(GVar "err")] "=" [(GCall "node.item.write" [(GVar "t")])]] (GBin "!=" (GVar "err") GNil) [SReturn [(GVar "err")]] [];
+    SReturn [(GCall "t.writeItems" [(GUn "&" (GVar "node.right"))])]]);
+  ("Collection.writeNodes",
+    [SIf [] (GBin "||" (GBin "==" (GVar "nloc") GNil) (GUn "!" (GCall "nloc.Loc().isEmpty" []))) [SReturn [GNil]] [];
+    SAssign [(GVar "node")] ":=" [(GCall "nloc.Node" [])];
+    SIf [] (GBin "==" (GVar "node") GNil) [SReturn [GNil]] [];
+    SIf [SAssign [(GVar "err")] "=" [(GCall "t.writeNodes" [(GUn "&" (GVar "node.left"))])]] (GBin "!=" (GVar "err") GNil) [SReturn [(GVar "err")]] [];
+    SIf [SAssign [(GVar "err")] "=" [(GCall "t.writeNodes" [(GUn "&" (GVar "node.right"))])]] (GBin "!=" (GVar "err") GNil) [SReturn [(GVar "err")]] [];
+    SReturn [(GCall "nloc.write" [(GVar "t.store")])]]);
+  ("Item.Copy",
+    [SReturn [(GUn "&" (GOther "Item{  Key:  i.Key,  Val:  i.Val,  Priority: i.Priority,  Transient: i.Transient, }"))]]);
+  ("Item.NumBytes",
+    [SReturn [(GBin "+" (GCall "len" [(GVar "i.Key")]) (GCall "i.NumValBytes" [(GVar "c")]))]]);
+  ("Item.NumValBytes",
+    [SIf [] (GBin "!=" (GVar "c.store.callbacks.ItemValLength") GNil) [SReturn [(GCall "c.store.callbacks.ItemValLength" [(GVar "c"); (GVar "i")])]] [];
+    SReturn [(GCall "len" [(GVar "i.Val")])]]);
+  ("NewStore",
+    [SReturn [(GCall "NewStoreEx" [(GVar "file"); (GOther "StoreCallbacks{}")])]]);
+  ("NewStoreEx",
+    [SAssign [(GVar "coll")] ":=" [(GCall "make" [(GOther "map[string]*Collection")])];
+    SAssign [(GVar "res")] ":=" [(GUn "&" (GOther "Store{coll: &coll, callbacks: callbacks}"))];
+    SIf [] (GBin "||" (GBin "==" (GVar "file") GNil) (GUn "!" (GCall "reflect.ValueOf(file).Elem().IsValid" []))) [SReturn [(GVar "res"); GNil]] [];
+    SAssign [(GVar "res.file")] "=" [(GVar "file")];
+    SIf [SAssign [(GVar "err")] ":=" [(GCall "res.readRoots" [])]] (GBin "!=" (GVar "err") GNil) [SReturn [GNil; (GVar "err")]] [];
+    SReturn [(GVar "res"); GNil]]);
+  ("RandBm",
+    [SRange (GVar "i") GNil (GVar "slice") [SAssign [(GVar "j")] ":=" [(GCall "rand.Intn" [(GBin "+" (GVar "i") (GInt 1))])];
+    SAssign [(GCall "[]" [(GVar "slice"); (GVar "i")]); (GCall "[]" [(GVar "slice"); (GVar "j")])] "=" [(GCall "[]" [(GVar "slice"); (GVar "j")]); (GCall "[]" [(GVar "slice"); (GVar "i")])]];
+    SReturn [(GVar "slice")]]);
+  ("Store.Close",
+    [SAssign [(GVar "s.file")] "=" [GNil];
+    SAssign [(GVar "cptr")] ":=" [(GCall "s.getColl" [])];
+    SIf [] (GBin "||" (GBin "==" (GVar "cptr") GNil) (GUn "!" (GCall "s.casColl" [(GVar "cptr"); GNil]))) [SReturn []] [];
+    SAssign [(GVar "coll")] ":=" [(GUn "*" (GCall "(*map[string]*Collection)" [(GVar "cptr")]))];
+    SRange (GVar "_") (GVar "name") (GCall "collNames" [(GVar "coll")]) [SExpr (GCall "coll[name].closeCollection" [])]]);
+  ("Store.CopyTo",
+    [SAssign [(GVar "dstStore"); (GVar "err")] ":=" [(GCall "NewStore" [(GVar "dstFile")])];
+    SIf [] (GBin "!=" (GVar "err") GNil) [SReturn [GNil; (GVar "err")]] [];
+    SAssign [(GVar "coll")] ":=" [(GUn "*" (GCall "s.getColl" []))];
+    SVar "maxDepth" None;
+    SRange (GVar "_") (GVar "name") (GCall "collNames" [(GVar "coll")]) [SAssign [(GVar "srcColl")] ":=" [(GCall "[]" [(GVar "coll"); (GVar "name")])];
+    SAssign [(GVar "dstColl")] ":=" [(GCall "dstStore.SetCollection" [(GVar "name"); (GVar "srcColl.compare")])];
+    SAssign [(GVar "minItem"); (GVar "err")] ":=" [(GCall "srcColl.MinItem" [(GVar "true")])];
+    SIf [] (GBin "!=" (GVar "err") GNil) [SReturn [GNil; (GVar "err")]] [];
+    SIf [] (GBin "==" (GVar "minItem") GNil) [SBranch "continue"] [];
+    SDefer (GCall "s.ItemDecRef" [(GVar "srcColl"); (GVar "minItem")]);
+    SAssign [(GVar "numItems")] ":=" [(GInt 0)];
+    SVar "errCopyItem" None;
+    SAssign [(GVar "err")] "=" [(GCall "srcColl.VisitItemsAscendEx" [(GVar "minItem.Key"); (GVar "true"); (GFun "<lit:Store.CopyTo#1>")])];
+    SIf [] (GBin "!=" (GVar "err") GNil) [SReturn [GNil; (GVar "err")]] [];
+    SIf [] (GBin "!=" (GVar "errCopyItem") GNil) [SReturn [GNil; (GVar "errCopyItem")]] [];
+    SIf [] (GVar "false") [SExpr (GCall "fmt.Printf" [(GLit """CopyTo cnt = %d, max_depth = %d\n"""); (GVar "numItems"); (GVar "maxDepth")])] []];
+    SIf [] (GBin ">" (GVar "flushEvery") (GInt 0)) [SIf [SAssign [(GVar "err")] "=" [(GCall "dstStore.Flush" [])]] (GBin "!=" (GVar "err") GNil) [SReturn [GNil; (GVar "err")]] []] [];
+    SReturn [(GVar "dstStore"); GNil]]);
+  ("Store.Flush",
+    [SIf [] (GVar "s.readOnly") [SReturn [(GCall "errors.New" [(GLit """readonly, so cannot Flush()""")])]] [];
+    SIf [] (GBin "==" (GVar "s.file") GNil) [SReturn [(GCall "errors.New" [(GLit """no file / in-memory only, so cannot Flush()""")])]] [];
+    SAssign [(GVar "coll")] ":=" [(GUn "*" (GCall "s.getColl" []))];
+    SAssign [(GVar "rnls")] ":=" [(GOther "map[string]*rootNodeLoc{}")];
+    SAssign [(GVar "cnames")] ":=" [(GCall "collNames" [(GVar "coll")])];
+    SRange (GVar "_") (GVar "name") (GVar "cnames") [SAssign [(GVar "c")] ":=" [(GCall "[]" [(GVar "coll"); (GVar "name")])];
+    SAssign [(GCall "[]" [(GVar "rnls"); (GVar "name")])] "=" [(GCall "c.rootAddRef" [])]];
+    SDefer (GCall "func() {  for _, name := range cnames {   coll[name].rootDecRef(rnls[name])  } }" []);
+    SRange (GVar "_") (GVar "name") (GVar "cnames") [SIf [SAssign [(GVar "err")] ":=" [(GCall "coll[name].write" [(GSel (GCall "[]" [(GVar "rnls"); (GVar "name")]) "root")])]] (GBin "!=" (GVar "err") GNil) [SReturn [(GVar "err")]] []];
+    SReturn [(GCall "s.writeRoots" [(GVar "rnls")])]]);
+  ("Store.FlushRevert",
+    [SIf [] (GBin "==" (GVar "s.file") GNil) [SReturn [(GCall "errors.New" [(GLit """no file / in-memory only, so cannot FlushRevert()""")])]] [];
+    SAssign [(GVar "orig")] ":=" [(GCall "s.getColl" [])];
+    SAssign [(GVar "coll")] ":=" [(GCall "make" [(GOther "map[string]*Collection")])];
+    SIf [] (GCall "s.casColl" [(GVar "orig"); (GUn "&" (GVar "coll"))]) [SRange (GVar "_") (GVar "cold") (GUn "*" (GCall "(*map[string]*Collection)" [(GVar "orig")])) [SExpr (GCall "cold.closeCollection" [])]] [];
+    SIf [] (GBin ">" (GCall "atomic.LoadInt64" [(GUn "&" (GVar "s.size"))]) (GVar "rootsLen")) [SExpr (GCall "atomic.AddInt64" [(GUn "&" (GVar "s.size")); (GInt (-1))])] [];
+    SAssign [(GVar "err")] ":=" [(GCall "s.readRootsScan" [(GVar "true")])];
+    SIf [] (GBin "!=" (GVar "err") GNil) [SReturn [(GVar "err")]] [];
+    SIf [] (GVar "s.readOnly") [SReturn [GNil]] [];
+    SReturn [(GCall "s.file.Truncate" [(GCall "atomic.LoadInt64" [(GUn "&" (GVar "s.size"))])])]]);
+  ("Store.GetCollection",
+    [SReturn [(GCall "[]" [(GUn "*" (GCall "s.getColl" [])); (GVar "name")])]]);
+  ("Store.GetCollectionNames",
+    [SReturn [(GCall "collNames" [(GUn "*" (GCall "s.getColl" []))])]]);
+  ("Store.ItemAddRef",
+    [SIf [] (GBin "!=" (GVar "s.callbacks.ItemAddRef") GNil) [SExpr (GCall "s.callbacks.ItemAddRef" [(GVar "c"); (GVar "i")])] []]);
+  ("Store.ItemAlloc",
+    [SIf [] (GBin "!=" (GVar "s.callbacks.ItemAlloc") GNil) [SReturn [(GCall "s.callbacks.ItemAlloc" [(GVar "c"); (GVar "keyLength")])]] [];
+    SReturn [(GUn "&" (GOther "Item{Key: make([]byte, keyLength)}"))]]);
+  ("Store.ItemDecRef",
+    [SIf [] (GBin "!=" (GVar "s.callbacks.ItemDecRef") GNil) [SExpr (GCall "s.callbacks.ItemDecRef" [(GVar "c"); (GVar "i")])] []]);
+  ("Store.ItemValRead",
+    [SIf [] (GBin "!=" (GVar "s.callbacks.ItemValRead") GNil) [SReturn [(GCall "s.callbacks.ItemValRead" [(GVar "c"); (GVar "i"); (GVar "r"); (GVar "offset"); (GVar "valLength")])]] [];
+    SAssign [(GVar "i.Val")] "=" [(GCall "make" [(GOther "[]byte"); (GVar "valLength")])];
+    SAssign [(GVar "_"); (GVar "err")] ":=" [(GCall "r.ReadAt" [(GVar "i.Val"); (GVar "offset")])];
+    SReturn [(GVar "err")]]);
+  ("Store.ItemValWrite",
+    [SIf [] (GBin "!=" (GVar "s.callbacks.ItemValWrite") GNil) [SReturn [(GCall "s.callbacks.ItemValWrite" [(GVar "c"); (GVar "i"); (GVar "w"); (GVar "offset")])]] [];
+    SAssign [(GVar "_"); (GVar "err")] ":=" [(GCall "w.WriteAt" [(GVar "i.Val"); (GVar "offset")])];
+    SReturn [(GVar "err")]]);
+  ("Store.MakePrivateCollection",
+    [SIf [] (GBin "==" (GVar "compare") GNil) [SAssign [(GVar "compare")] "=" [(GVar "bytes.Compare")]] [];
+    SReturn [(GUn "&" (GOther "Collection{  store:  s,  compare: compare,  rootLock: &sync.Mutex{},  root:  &rootNodeLoc{refs: 1, root: &emptyNodeLoc}, }"))]]);
+  ("Store.RemoveCollection",
+    [SFor [] None [] [SAssign [(GVar "orig")] ":=" [(GCall "s.getColl" [])];
+    SAssign [(GVar "coll")] ":=" [(GCall "copyColl" [(GUn "*" (GCall "(*map[string]*Collection)" [(GVar "orig")]))])];
+    SAssign [(GVar "cold")] ":=" [(GCall "[]" [(GVar "coll"); (GVar "name")])];
+    SExpr (GCall "delete" [(GVar "coll"); (GVar "name")]);
+    SIf [] (GCall "s.casColl" [(GVar "orig"); (GUn "&" (GVar "coll"))]) [SExpr (GCall "cold.closeCollection" []);
+    SReturn []] []]]);
+  ("Store.SetCollection",
+    [SIf [] (GBin "==" (GVar "compare") GNil) [SAssign [(GVar "compare")] "=" [(GVar "bytes.Compare")]] [];
+    SFor [] None [] [SAssign [(GVar "orig")] ":=" [(GCall "s.getColl" [])];
+    SAssign [(GVar "coll")] ":=" [(GCall "copyColl" [(GUn "*" (GCall "(*map[string]*Collection)" [(GVar "orig")]))])];
+    SAssign [(GVar "cnew")] ":=" [(GCall "s.MakePrivateCollection" [(GVar "compare")])];
+    SAssign [(GVar "cnew.name")] "=" [(GVar "name")];
+    SAssign [(GVar "cold")] ":=" [(GCall "[]" [(GVar "coll"); (GVar "name")])];
+    SIf [] (GBin "!=" (GVar "cold") GNil) [SAssign [(GVar "cnew.rootLock")] "=" [(GVar "cold.rootLock")];
+    SAssign [(GVar "cnew.root")] "=" [(GCall "cold.rootAddRef" [])]] [];
+    SAssign [(GCall "[]" [(GVar "coll"); (GVar "name")])] "=" [(GVar "cnew")];
+    SIf [] (GCall "s.casColl" [(GVar "orig"); (GUn "&" (GVar "coll"))]) [SExpr (GCall "cold.closeCollection" []);
+    SReturn [(GVar "cnew")]] [];
+    SExpr (GCall "cnew.closeCollection" [])]]);
+  ("Store.Snapshot",
+    [SAssign [(GVar "coll")] ":=" [(GCall "copyColl" [(GUn "*" (GCall "s.getColl" []))])];
+    SAssign [(GVar "res")] ":=" [(GUn "&" (GOther "Store{  coll:  &coll,  file:  s.file,  size:  atomic.LoadInt64(&s.size),  readOnly: true,  callbacks: s.callbacks, }"))];
+    SRange (GVar "_") (GVar "name") (GCall "collNames" [(GVar "coll")]) [SAssign [(GVar "collOrig")] ":=" [(GCall "[]" [(GVar "coll"); (GVar "name")])];
+    SAssign [(GCall "[]" [(GVar "coll"); (GVar "name")])] "=" [(GUn "&" (GOther "Collection{  store:  res,  compare: collOrig.compare,  rootLock: collOrig.rootLock,  root:  collOrig.rootAddRef(), }"))]];
+    SReturn [(GVar "res")]]);
+  ("Store.Stats",
+    [SAssign [(GCall "[]" [(GVar "out"); (GLit """fileSize""")])] "=" [(GCall "uint64" [(GCall "atomic.LoadInt64" [(GUn "&" (GVar "s.size"))])])];
+    SAssign [(GCall "[]" [(GVar "out"); (GLit """nodeAllocs""")])] "=" [(GCall "atomic.LoadUint64" [(GUn "&" (GVar "s.nodeAllocs"))])]]);
+  ("Store.casColl",
+    [SExpr (GCall "s.m.Lock" []);
+    SDefer (GCall "s.m.Unlock" []);
+    SIf [] (GBin "==" (GVar "s.coll") (GVar "o")) [SAssign [(GVar "s.coll")] "=" [(GVar "n")];
+    SReturn [(GVar "true")]] [];
+    SReturn [(GVar "false")]]);
+  ("Store.checkAndReadRoots",
+    [SIf [] (GBin "&&" (GBin "&&" (GBin ">=" (GVar "offset") (GInt 0)) (GBin "<" (GVar "offset") (GBin "-" (GCall "atomic.LoadInt64" [(GUn "&" (GVar "s.size"))]) (GCall "int64" [(GVar "rootsLen")])))) (GBin "==" (GVar "length") (GCall "uint32" [(GBin "-" (GCall "atomic.LoadInt64" [(GUn "&" (GVar "s.size"))]) (GVar "offset"))]))) [SAssign [(GVar "data")] ":=" [(GCall "make" [(GOther "[]byte"); (GBin "-" (GBin "-" (GCall "atomic.LoadInt64" [(GUn "&" (GVar "s.size"))]) (GVar "offset")) (GCall "int64" [(GCall "len" [(GVar "rootsEnd")])]))])];
+    SIf [SAssign [(GVar "_"); (GVar "err")] ":=" [(GCall "s.file.ReadAt" [(GVar "data"); (GVar "offset")])]] (GBin "!=" (GVar "err") GNil) [SReturn [(GUn "&" (GOther "rootsReadError{err}"))]] [];
+    SIf [] (GBin "&&" (GCall "bytes.Equal" [(GVar "MagicBeg"); (GCall "[:]" [(GVar "data"); GNil; (GCall "len" [(GVar "MagicBeg")])])]) (GCall "bytes.Equal" [(GVar "MagicBeg"); (GCall "[:]" [(GVar "data"); (GCall "len" [(GVar "MagicBeg")]); (GBin "*" (GInt 2) (GCall "len" [(GVar "MagicBeg")]))])])) [SReturn [(GCall "s.validateAndSetCollections" [(GVar "data"); (GVar "length")])]] []] [];
+    SReturn [(GCall "errors.New" [(GLit """invalid roots""")])]]);
+  ("Store.getColl",
+    [SExpr (GCall "s.m.RLock" []);
+    SDefer (GCall "s.m.RUnlock" []);
+    SReturn [(GVar "s.coll")]]);
+  ("Store.getSize",
+    [SReturn [(GCall "atomic.LoadInt64" [(GUn "&" (GVar "s.size"))])]]);
+  ("Store.join",
+    [SAssign [(GVar "thisNode"); (GVar "err")] ":=" [(GCall "this.read" [(GVar "o")])];
+    SIf [] (GBin "!=" (GVar "err") GNil) [SReturn [(GUn "&" (GVar "emptyNodeLoc")); (GVar "err")]] [];
+    SAssign [(GVar "thatNode"); (GVar "err")] ":=" [(GCall "that.read" [(GVar "o")])];
+    SIf [] (GBin "!=" (GVar "err") GNil) [SReturn [(GUn "&" (GVar "emptyNodeLoc")); (GVar "err")]] [];
+    SIf [] (GBin "||" (GCall "this.isEmpty" []) (GBin "==" (GVar "thisNode") GNil)) [SReturn [(GCall "t.mkNodeLoc(nil).Copy" [(GVar "that")]); GNil]] [];
+    SIf [] (GBin "||" (GCall "that.isEmpty" []) (GBin "==" (GVar "thatNode") GNil)) [SReturn [(GCall "t.mkNodeLoc(nil).Copy" [(GVar "this")]); GNil]] [];
+    SAssign [(GVar "thisItemLoc")] ":=" [(GUn "&" (GVar "thisNode.item"))];
+    SAssign [(GVar "thisItem"); (GVar "err")] ":=" [(GCall "thisItemLoc.read" [(GVar "t"); (GVar "false")])];
+    SIf [] (GBin "!=" (GVar "err") GNil) [SReturn [(GUn "&" (GVar "emptyNodeLoc")); (GVar "err")]] [];
+    SAssign [(GVar "thatItemLoc")] ":=" [(GUn "&" (GVar "thatNode.item"))];
+    SAssign [(GVar "thatItem"); (GVar "err")] ":=" [(GCall "thatItemLoc.read" [(GVar "t"); (GVar "false")])];
+    SIf [] (GBin "!=" (GVar "err") GNil) [SReturn [(GUn "&" (GVar "emptyNodeLoc")); (GVar "err")]] [];
+    SIf [] (GBin ">" (GVar "thisItem.Priority") (GVar "thatItem.Priority")) [SAssign [(GVar "newRight"); (GVar "err")] ":=" [(GCall "o.join" [(GVar "t"); (GUn "&" (GVar "thisNode.right")); (GVar "that"); (GVar "reclaimMark")])];
+    SIf [] (GBin "!=" (GVar "err") GNil) [SReturn [(GUn "&" (GVar "emptyNodeLoc")); (GVar "err")]] [];
+    SAssign [(GVar "leftNum"); (GVar "leftBytes"); (GVar "rightNum"); (GVar "rightBytes"); (GVar "err")] ":=" [(GCall "numInfo" [(GVar "o"); (GUn "&" (GVar "thisNode.left")); (GVar "newRight")])];
+    SIf [] (GBin "!=" (GVar "err") GNil) [SReturn [(GUn "&" (GVar "emptyNodeLoc")); (GVar "err")]] [];
+    SAssign [(GVar "res")] "=" [(GCall "t.mkNodeLoc" [(GCall "t.mkNode" [(GVar "thisItemLoc"); (GUn "&" (GVar "thisNode.left")); (GVar "newRight"); (GBin "+" (GBin "+" (GVar "leftNum") (GVar "rightNum")) (GInt 1)); (GBin "+" (GBin "+" (GVar "leftBytes") (GVar "rightBytes")) (GCall "uint64" [(GCall "thisItemLoc.NumBytes" [(GVar "t")])]))])])];
+    SExpr (GCall "t.markReclaimable" [(GVar "thisNode"); (GVar "reclaimMark")]);
+    SExpr (GCall "t.freeNodeLoc" [(GVar "newRight")]);
+    SReturn [(GVar "res"); GNil]] [];
+    SAssign [(GVar "newLeft"); (GVar "err")] ":=" [(GCall "o.join" [(GVar "t"); (GVar "this"); (GUn "&" (GVar "thatNode.left")); (GVar "reclaimMark")])];
+    SIf [] (GBin "!=" (GVar "err") GNil) [SReturn [(GUn "&" (GVar "emptyNodeLoc")); (GVar "err")]] [];
+    SAssign [(GVar "leftNum"); (GVar "leftBytes"); (GVar "rightNum"); (GVar "rightBytes"); (GVar "err")] ":=" [(GCall "numInfo" [(GVar "o"); (GVar "newLeft"); (GUn "&" (GVar "thatNode.right"))])];
+    SIf [] (GBin "!=" (GVar "err") GNil) [SReturn [(GUn "&" (GVar "emptyNodeLoc")); (GVar "err")]] [];
+    SAssign [(GVar "res")] "=" [(GCall "t.mkNodeLoc" [(GCall "t.mkNode" [(GVar "thatItemLoc"); (GVar "newLeft"); (GUn "&" (GVar "thatNode.right")); (GBin "+" (GBin "+" (GVar "leftNum") (GVar "rightNum")) (GInt 1)); (GBin "+" (GBin "+" (GVar "leftBytes") (GVar "rightBytes")) (GCall "uint64" [(GCall "thatItemLoc.NumBytes" [(GVar "t")])]))])])];
+    SExpr (GCall "t.markReclaimable" [(GVar "thatNode"); (GVar "reclaimMark")]);
+    SExpr (GCall "t.freeNodeLoc" [(GVar "newLeft")]);
+    SReturn [(GVar "res"); GNil]]);
+  ("Store.readRoots",
+    [SAssign [(GVar "finfo"); (GVar "err")] ":=" [(GCall "s.file.Stat" [])];
+    SIf [] (GBin "!=" (GVar "err") GNil) [SReturn [(GVar "err")]] [];
+    SExpr (GCall "atomic.StoreInt64" [(GUn "&" (GVar "s.size")); (GCall "finfo.Size" [])]);
+    SIf [] (GBin "<=" (GVar "s.size") (GInt 0)) [SReturn [GNil]] [];
+    SReturn [(GCall "s.readRootsScan" [(GVar "false")])]]);
+  ("Store.readRootsEnd",
+    [SVar "offset" None;
+    SVar "length" None;
+    SAssign [(GVar "endBuf")] ":=" [(GCall "bytes.NewBuffer" [(GVar "rootsEnd")])];
+    SIf [SAssign [(GVar "err")] ":=" [(GCall "binary.Read" [(GVar "endBuf"); (GVar "binary.BigEndian"); (GUn "&" (GVar "offset"))])]] (GBin "!=" (GVar "err") GNil) [SReturn [(GInt 0); (GInt 0); (GVar "err")]] [];
+    SIf [SAssign [(GVar "err")] ":=" [(GCall "binary.Read" [(GVar "endBuf"); (GVar "binary.BigEndian"); (GUn "&" (GVar "length"))])]] (GBin "!=" (GVar "err") GNil) [SReturn [(GInt 0); (GInt 0); (GVar "err")]] [];
+    SReturn [(GVar "offset"); (GVar "length"); GNil]]);
+  ("Store.readRootsScan",
+    [SAssign [(GVar "rootsEnd")] ":=" [(GCall "make" [(GOther "[]byte"); (GVar "rootsEndLen")])];
+    SFor [] None [] [SIf [SAssign [(GVar "err")] ":=" [(GCall "s.scanBackwardsForMagicEnd" [(GVar "rootsEnd"); (GVar "defaultToEmpty")])]] (GBin "!=" (GVar "err") GNil) [SReturn [(GVar "err")]] [];
+    SIf [] (GBin "&&" (GVar "defaultToEmpty") (GBin "==" (GCall "atomic.LoadInt64" [(GUn "&" (GVar "s.size"))]) (GInt 0))) [SReturn [GNil]] [];
+    SAssign [(GVar "offset"); (GVar "length"); (GVar "err")] ":=" [(GCall "s.readRootsEnd" [(GVar "rootsEnd")])];
+    SIf [] (GBin "!=" (GVar "err") GNil) [SReturn [(GVar "err")]] [];
+    SAssign [(GVar "err")] "=" [(GCall "s.checkAndReadRoots" [(GVar "offset"); (GVar "length"); (GVar "rootsEnd")])];
+    SIf [] (GBin "==" (GVar "err") GNil) [SReturn [GNil]] [];
+    SVar "ioErr" None;
+    SIf [] (GCall "errors.As" [(GVar "err"); (GUn "&" (GVar "ioErr"))]) [SReturn [(GVar "ioErr.err")]] [];
+    SExpr (GCall "atomic.AddInt64" [(GUn "&" (GVar "s.size")); (GInt (-1))])]]);
+  ("Store.scanBackwardsForMagicEnd",
+    [SFor [] None [] [SIf [] (GBin "<=" (GCall "atomic.LoadInt64" [(GUn "&" (GVar "s.size"))]) (GVar "rootsLen")) [SIf [] (GVar "defaultToEmpty") [SExpr (GCall "atomic.StoreInt64" [(GUn "&" (GVar "s.size")); (GInt 0)]);
+    SReturn [GNil]] [];
+    SReturn [(GCall "errors.New" [(GLit """couldn't find roots; file corrupted or wrong?""")])]] [];
+    SIf [SAssign [(GVar "_"); (GVar "err")] ":=" [(GCall "s.file.ReadAt" [(GVar "rootsEnd"); (GBin "-" (GCall "atomic.LoadInt64" [(GUn "&" (GVar "s.size"))]) (GCall "int64" [(GCall "len" [(GVar "rootsEnd")])]))])]] (GBin "!=" (GVar "err") GNil) [SReturn [(GVar "err")]] [];
+    SIf [] (GBin "&&" (GCall "bytes.Equal" [(GVar "MagicEnd"); (GCall "[:]" [(GVar "rootsEnd"); (GInt 12); (GBin "+" (GInt 12) (GCall "len" [(GVar "MagicEnd")]))])]) (GCall "bytes.Equal" [(GVar "MagicEnd"); (GCall "[:]" [(GVar "rootsEnd"); (GBin "+" (GInt 12) (GCall "len" [(GVar "MagicEnd")])); GNil])])) [SBranch "break"] [];
+    SExpr (GCall "atomic.AddInt64" [(GUn "&" (GVar "s.size")); (GInt (-1))])];
+    SReturn [GNil]]);
+  ("Store.setColl",
+    [SExpr (GCall "s.m.Lock" []);
+    SDefer (GCall "s.m.Unlock" []);
+    SAssign [(GVar "s.coll")] "=" [(GVar "n")]]);
+  ("Store.setSize",
+    [SExpr (GCall "atomic.StoreInt64" [(GUn "&" (GVar "s.size")); (GVar "sz")])]);
+  ("Store.split",
+    [SAssign [(GVar "nNode"); (GVar "err")] ":=" [(GCall "n.read" [(GVar "o")])];
+    SIf [] (GBin "||" (GBin "||" (GBin "!=" (GVar "err") GNil) (GCall "n.isEmpty" [])) (GBin "==" (GVar "nNode") GNil)) [SReturn [(GUn "&" (GVar "emptyNodeLoc")); (GUn "&" (GVar "emptyNodeLoc")); (GUn "&" (GVar "emptyNodeLoc")); (GVar "err")]] [];
+    SAssign [(GVar "nItemLoc")] ":=" [(GUn "&" (GVar "nNode.item"))];
+    SAssign [(GVar "nItem"); (GVar "err")] ":=" [(GCall "nItemLoc.read" [(GVar "t"); (GVar "false")])];
+    SIf [] (GBin "!=" (GVar "err") GNil) [SReturn [(GUn "&" (GVar "emptyNodeLoc")); (GUn "&" (GVar "emptyNodeLoc")); (GUn "&" (GVar "emptyNodeLoc")); (GVar "err")]] [];
+    SAssign [(GVar "c")] ":=" [(GCall "t.compare" [(GVar "s"); (GVar "nItem.Key")])];
+    SIf [] (GBin "==" (GVar "c") (GInt 0)) [SAssign [(GVar "left")] ":=" [(GCall "t.mkNodeLoc(nil).Copy" [(GUn "&" (GVar "nNode.left"))])];
+    SAssign [(GVar "right")] ":=" [(GCall "t.mkNodeLoc(nil).Copy" [(GUn "&" (GVar "nNode.right"))])];
+    SAssign [(GVar "middle")] ":=" [(GCall "t.mkNodeLoc(nil).Copy" [(GVar "n")])];
+    SReturn [(GVar "left"); (GVar "middle"); (GVar "right"); GNil]] [];
+    SIf [] (GBin "<" (GVar "c") (GInt 0)) [SIf [] (GCall "nNode.left.isEmpty" []) [SReturn [(GUn "&" (GVar "emptyNodeLoc")); (GUn "&" (GVar "emptyNodeLoc")); (GCall "t.mkNodeLoc(nil).Copy" [(GVar "n")]); GNil]] [];
+    SAssign [(GVar "left"); (GVar "middle"); (GVar "right"); (GVar "err")] ":=" [(GCall "o.split" [(GVar "t"); (GUn "&" (GVar "nNode.left")); (GVar "s"); (GVar "reclaimMark")])];
+    SIf [] (GBin "!=" (GVar "err") GNil) [SReturn [(GUn "&" (GVar "emptyNodeLoc")); (GUn "&" (GVar "emptyNodeLoc")); (GUn "&" (GVar "emptyNodeLoc")); (GVar "err")]] [];
+    SAssign [(GVar "leftNum"); (GVar "leftBytes"); (GVar "rightNum"); (GVar "rightBytes"); (GVar "err")] ":=" [(GCall "numInfo" [(GVar "o"); (GVar "right"); (GUn "&" (GVar "nNode.right"))])];
+    SIf [] (GBin "!=" (GVar "err") GNil) [SReturn [(GUn "&" (GVar "emptyNodeLoc")); (GUn "&" (GVar "emptyNodeLoc")); (GUn "&" (GVar "emptyNodeLoc")); (GVar "err")]] [];
+    SAssign [(GVar "newRight")] ":=" [(GCall "t.mkNodeLoc" [(GCall "t.mkNode" [(GVar "nItemLoc"); (GVar "right"); (GUn "&" (GVar "nNode.right")); (GBin "+" (GBin "+" (GVar "leftNum") (GVar "rightNum")) (GInt 1)); (GBin "+" (GBin "+" (GVar "leftBytes") (GVar "rightBytes")) (GCall "uint64" [(GCall "nItemLoc.NumBytes" [(GVar "t")])]))])])];
+    SExpr (GCall "t.freeNodeLoc" [(GVar "right")]);
+    SExpr (GCall "t.markReclaimable" [(GVar "nNode"); (GVar "reclaimMark")]);
+    SReturn [(GVar "left"); (GVar "middle"); (GVar "newRight"); GNil]] [];
+    SIf [] (GCall "nNode.right.isEmpty" []) [SReturn [(GCall "t.mkNodeLoc(nil).Copy" [(GVar "n")]); (GUn "&" (GVar "emptyNodeLoc")); (GUn "&" (GVar "emptyNodeLoc")); GNil]] [];
+    SAssign [(GVar "left"); (GVar "middle"); (GVar "right"); (GVar "err")] ":=" [(GCall "o.split" [(GVar "t"); (GUn "&" (GVar "nNode.right")); (GVar "s"); (GVar "reclaimMark")])];
+    SIf [] (GBin "!=" (GVar "err") GNil) [SReturn [(GUn "&" (GVar "emptyNodeLoc")); (GUn "&" (GVar "emptyNodeLoc")); (GUn "&" (GVar "emptyNodeLoc")); (GVar "err")]] [];
+    SAssign [(GVar "leftNum"); (GVar "leftBytes"); (GVar "rightNum"); (GVar "rightBytes"); (GVar "err")] ":=" [(GCall "numInfo" [(GVar "o"); (GUn "&" (GVar "nNode.left")); (GVar "left")])];
+    SIf [] (GBin "!=" (GVar "err") GNil) [SReturn [(GUn "&" (GVar "emptyNodeLoc")); (GUn "&" (GVar "emptyNodeLoc")); (GUn "&" (GVar "emptyNodeLoc")); (GVar "err")]] [];
+    SAssign [(GVar "newLeft")] ":=" [(GCall "t.mkNodeLoc" [(GCall "t.mkNode" [(GVar "nItemLoc"); (GUn "&" (GVar "nNode.left")); (GVar "left"); (GBin "+" (GBin "+" (GVar "leftNum") (GVar "rightNum")) (GInt 1)); (GBin "+" (GBin "+" (GVar "leftBytes") (GVar "rightBytes")) (GCall "uint64" [(GCall "nItemLoc.NumBytes" [(GVar "t")])]))])])];
+    SExpr (GCall "t.freeNodeLoc" [(GVar "left")]);
+    SExpr (GCall "t.markReclaimable" [(GVar "nNode"); (GVar "reclaimMark")]);
+    SReturn [(GVar "newLeft"); (GVar "middle"); (GVar "right"); GNil]]);
+  ("Store.union",
+    [SAssign [(GVar "thisNode"); (GVar "err")] ":=" [(GCall "this.read" [(GVar "o")])];
+    SIf [] (GBin "!=" (GVar "err") GNil) [SReturn [(GUn "&" (GVar "emptyNodeLoc")); (GVar "err")]] [];
+    SAssign [(GVar "thatNode"); (GVar "err")] ":=" [(GCall "that.read" [(GVar "o")])];
+    SIf [] (GBin "!=" (GVar "err") GNil) [SReturn [(GUn "&" (GVar "emptyNodeLoc")); (GVar "err")]] [];
+    SIf [] (GBin "||" (GCall "this.isEmpty" []) (GBin "==" (GVar "thisNode") GNil)) [SReturn [(GCall "t.mkNodeLoc(nil).Copy" [(GVar "that")]); GNil]] [];
+    SIf [] (GBin "||" (GCall "that.isEmpty" []) (GBin "==" (GVar "thatNode") GNil)) [SReturn [(GCall "t.mkNodeLoc(nil).Copy" [(GVar "this")]); GNil]] [];
+    SAssign [(GVar "thisItemLoc")] ":=" [(GUn "&" (GVar "thisNode.item"))];
+    SAssign [(GVar "thisItem"); (GVar "err")] ":=" [(GCall "thisItemLoc.read" [(GVar "t"); (GVar "false")])];
+    SIf [] (GBin "!=" (GVar "err") GNil) [SReturn [(GUn "&" (GVar "emptyNodeLoc")); (GVar "err")]] [];
+    SAssign [(GVar "thatItemLoc")] ":=" [(GUn "&" (GVar "thatNode.item"))];
+    SAssign [(GVar "thatItem"); (GVar "err")] ":=" [(GCall "thatItemLoc.read" [(GVar "t"); (GVar "false")])];
+    SIf [] (GBin "!=" (GVar "err") GNil) [SReturn [(GUn "&" (GVar "emptyNodeLoc")); (GVar "err")]] [];
+    SIf [] (GBin ">" (GVar "thisItem.Priority") (GVar "thatItem.Priority")) [SAssign [(GVar "left"); (GVar "middle"); (GVar "right"); (GVar "err")] ":=" [(GCall "o.split" [(GVar "t"); (GVar "that"); (GVar "thisItem.Key"); (GVar "reclaimMark")])];
+    SIf [] (GBin "!=" (GVar "err") GNil) [SReturn [(GUn "&" (GVar "emptyNodeLoc")); (GVar "err")]] [];
+    SAssign [(GVar "newLeft"); (GVar "err")] ":=" [(GCall "o.union" [(GVar "t"); (GUn "&" (GVar "thisNode.left")); (GVar "left"); (GVar "reclaimMark")])];
+    SIf [] (GBin "!=" (GVar "err") GNil) [SReturn [(GUn "&" (GVar "emptyNodeLoc")); (GVar "err")]] [];
+    SAssign [(GVar "newRight"); (GVar "err")] ":=" [(GCall "o.union" [(GVar "t"); (GUn "&" (GVar "thisNode.right")); (GVar "right"); (GVar "reclaimMark")])];
+    SIf [] (GBin "!=" (GVar "err") GNil) [SReturn [(GUn "&" (GVar "emptyNodeLoc")); (GVar "err")]] [];
+    SAssign [(GVar "leftNum"); (GVar "leftBytes"); (GVar "rightNum"); (GVar "rightBytes"); (GVar "err")] ":=" [(GCall "numInfo" [(GVar "o"); (GVar "newLeft"); (GVar "newRight")])];
+    SIf [] (GBin "!=" (GVar "err") GNil) [SReturn [(GUn "&" (GVar "emptyNodeLoc")); (GVar "err")]] [];
+    SVar "middleNode" None;
+    SIf [] (GUn "!" (GCall "middle.isEmpty" [])) [SAssign [(GVar "middleNode"); (GVar "err")] "=" [(GCall "middle.read" [(GVar "o")])];
+    SIf [] (GBin "!=" (GVar "err") GNil) [SReturn [(GUn "&" (GVar "emptyNodeLoc")); (GVar "err")]] [];
+    SAssign [(GVar "middleItemLoc")] ":=" [(GUn "&" (GVar "middleNode.item"))];
+    SAssign [(GVar "res")] "=" [(GCall "t.mkNodeLoc" [(GCall "t.mkNode" [(GVar "middleItemLoc"); (GVar "newLeft"); (GVar "newRight"); (GBin "+" (GBin "+" (GVar "leftNum") (GVar "rightNum")) (GInt 1)); (GBin "+" (GBin "+" (GVar "leftBytes") (GVar "rightBytes")) (GCall "uint64" [(GCall "middleItemLoc.NumBytes" [(GVar "t")])]))])])]] [SAssign [(GVar "res")] "=" [(GCall "t.mkNodeLoc" [(GCall "t.mkNode" [(GVar "thisItemLoc"); (GVar "newLeft"); (GVar "newRight"); (GBin "+" (GBin "+" (GVar "leftNum") (GVar "rightNum")) (GInt 1)); (GBin "+" (GBin "+" (GVar "leftBytes") (GVar "rightBytes")) (GCall "uint64" [(GCall "thisItemLoc.NumBytes" [(GVar "t")])]))])])]];
+    SExpr (GCall "t.freeNodeLoc" [(GVar "left")]);
+    SExpr (GCall "t.freeNodeLoc" [(GVar "right")]);
+    SExpr (GCall "t.freeNodeLoc" [(GVar "middle")]);
+    SExpr (GCall "t.freeNodeLoc" [(GVar "newLeft")]);
+    SExpr (GCall "t.freeNodeLoc" [(GVar "newRight")]);
+    SExpr (GCall "t.markReclaimable" [(GVar "thisNode"); (GVar "reclaimMark")]);
+    SExpr (GCall "t.markReclaimable" [(GVar "middleNode"); (GVar "reclaimMark")]);
+    SReturn [(GVar "res"); GNil]] [];
+    SAssign [(GVar "left"); (GVar "middle"); (GVar "right"); (GVar "err")] ":=" [(GCall "o.split" [(GVar "t"); (GVar "this"); (GVar "thatItem.Key"); (GVar "reclaimMark")])];
+    SIf [] (GBin "!=" (GVar "err") GNil) [SReturn [(GUn "&" (GVar "emptyNodeLoc")); (GVar "err")]] [];
+    SAssign [(GVar "newLeft"); (GVar "err")] ":=" [(GCall "o.union" [(GVar "t"); (GVar "left"); (GUn "&" (GVar "thatNode.left")); (GVar "reclaimMark")])];
+    SIf [] (GBin "!=" (GVar "err") GNil) [SReturn [(GUn "&" (GVar "emptyNodeLoc")); (GVar "err")]] [];
+    SAssign [(GVar "newRight"); (GVar "err")] ":=" [(GCall "o.union" [(GVar "t"); (GVar "right"); (GUn "&" (GVar "thatNode.right")); (GVar "reclaimMark")])];
+    SIf [] (GBin "!=" (GVar "err") GNil) [SReturn [(GUn "&" (GVar "emptyNodeLoc")); (GVar "err")]] [];
+    SAssign [(GVar "leftNum"); (GVar "leftBytes"); (GVar "rightNum"); (GVar "rightBytes"); (GVar "err")] ":=" [(GCall "numInfo" [(GVar "o"); (GVar "newLeft"); (GVar "newRight")])];
+    SIf [] (GBin "!=" (GVar "err") GNil) [SReturn [(GUn "&" (GVar "emptyNodeLoc")); (GVar "err")]] [];
+    SAssign [(GVar "res")] "=" [(GCall "t.mkNodeLoc" [(GCall "t.mkNode" [(GVar "thatItemLoc"); (GVar "newLeft"); (GVar "newRight"); (GBin "+" (GBin "+" (GVar "leftNum") (GVar "rightNum")) (GInt 1)); (GBin "+" (GBin "+" (GVar "leftBytes") (GVar "rightBytes")) (GCall "uint64" [(GCall "thatItemLoc.NumBytes" [(GVar "t")])]))])])];
+    SAssign [(GVar "middleNode")] ":=" [(GCall "middle.Node" [])];
+    SExpr (GCall "t.freeNodeLoc" [(GVar "left")]);
+    SExpr (GCall "t.freeNodeLoc" [(GVar "right")]);
+    SExpr (GCall "t.freeNodeLoc" [(GVar "middle")]);
+    SExpr (GCall "t.freeNodeLoc" [(GVar "newLeft")]);
+    SExpr (GCall "t.freeNodeLoc" [(GVar "newRight")]);
+    SExpr (GCall "t.markReclaimable" [(GVar "thatNode"); (GVar "reclaimMark")]);
+    SExpr (GCall "t.markReclaimable" [(GVar "middleNode"); (GVar "reclaimMark")]);
+    SReturn [(GVar "res"); GNil]]);
+  ("Store.validateAndSetCollections",
+    [SBlock [SVar "version" None; SVar "length0" None];
+    SAssign [(GVar "b")] ":=" [(GCall "bytes.NewBuffer" [(GCall "[:]" [(GVar "data"); (GBin "*" (GInt 2) (GCall "len" [(GVar "MagicBeg")])); GNil])])];
+    SIf [SAssign [(GVar "err")] ":=" [(GCall "binary.Read" [(GVar "b"); (GVar "binary.BigEndian"); (GUn "&" (GVar "version"))])]] (GBin "!=" (GVar "err") GNil) [SReturn [(GVar "err")]] [];
+    SIf [SAssign [(GVar "err")] ":=" [(GCall "binary.Read" [(GVar "b"); (GVar "binary.BigEndian"); (GUn "&" (GVar "length0"))])]] (GBin "!=" (GVar "err") GNil) [SReturn [(GVar "err")]] [];
+    SIf [] (GBin "!=" (GVar "version") (GInt 4)) [SReturn [(GCall "fmt.Errorf" [(GLit """version mismatch: current version: %v != found version: %v"""); (GInt 4); (GVar "version")])]] [];
+    SIf [] (GBin "!=" (GVar "length0") (GVar "length")) [SReturn [(GCall "fmt.Errorf" [(GLit """length mismatch: wanted length: %v != found length: %v"""); (GVar "length0"); (GVar "length")])]] [];
+    SAssign [(GVar "m")] ":=" [(GCall "make" [(GOther "map[string]*Collection")])];
+    SIf [SAssign [(GVar "err")] ":=" [(GCall "json.Unmarshal" [(GCall "[:]" [(GVar "data"); (GBin "+" (GBin "+" (GBin "*" (GInt 2) (GCall "len" [(GVar "MagicBeg")])) (GInt 4)) (GInt 4)); GNil]); (GUn "&" (GVar "m"))])]] (GBin "!=" (GVar "err") GNil) [SReturn [(GVar "err")]] [];
+    SRange (GVar "collName") (GVar "t") (GVar "m") [SAssign [(GVar "t.name")] "=" [(GVar "collName")];
+    SAssign [(GVar "t.store")] "=" [(GVar "s")];
+    SIf [] (GBin "!=" (GVar "s.callbacks.KeyCompareForCollection") GNil) [SAssign [(GVar "t.compare")] "=" [(GCall "s.callbacks.KeyCompareForCollection" [(GVar "collName")])]] [];
+    SIf [] (GBin "==" (GVar "t.compare") GNil) [SAssign [(GVar "t.compare")] "=" [(GVar "bytes.Compare")]] []];
+    SExpr (GCall "s.setColl" [(GUn "&" (GVar "m"))]);
+    SReturn [GNil]]);
+  ("Store.visitNodes",
+    [SAssign [(GVar "saveMem")] ":=" [(GVar "true")];
+    SAssign [(GVar "nNode"); (GVar "err")] ":=" [(GCall "n.read" [(GVar "o")])];
+    SIf [] (GBin "!=" (GVar "err") GNil) [SReturn [(GVar "false"); (GVar "err")]] [];
+    SIf [] (GBin "||" (GCall "n.isEmpty" []) (GBin "==" (GVar "nNode") GNil)) [SReturn [(GVar "true"); GNil]] [];
+    SIf [] (GVar "saveMem") [SDefer (GCall "func(evictNode *node) {  if i := evictNode.Evict(); i != nil {   o.ItemDecRef(t, i)  } }" [(GVar "nNode")])] [];
+    SAssign [(GVar "nItemLoc")] ":=" [(GUn "&" (GVar "nNode.item"))];
+    SAssign [(GVar "nItem"); (GVar "err")] ":=" [(GCall "nItemLoc.read" [(GVar "t"); (GVar "false")])];
+    SIf [] (GBin "!=" (GVar "err") GNil) [SReturn [(GVar "false"); (GVar "err")]] [];
+    SIf [] (GBin "==" (GVar "nItem") GNil) [SExpr (GCall "panic" [(GCall "fmt.Sprintf" [(GLit """visitNodes nItem nil: %#v"""); (GVar "nNode")])])] [];
+    SAssign [(GVar "choice"); (GVar "choiceT"); (GVar "choiceF")] ":=" [(GCall "choiceFunc" [(GCall "t.compare" [(GVar "target"); (GVar "nItem.Key")]); (GVar "nNode")])];
+    SIf [] (GVar "choice") [SIf [] (GVar "saveMem") [SAssign [(GVar "choiceF")] "=" [GNil];
+    SAssign [(GVar "nNode")] "=" [GNil];
+    SAssign [(GVar "nItemLoc")] "=" [GNil]] [];
+    SAssign [(GVar "keepGoing"); (GVar "err")] ":=" [(GCall "o.visitNodes" [(GVar "t"); (GVar "choiceT"); (GVar "target"); (GVar "withValue"); (GVar "visitor"); (GBin "+" (GVar "depth") (GInt 1)); (GVar "choiceFunc")])];
+    SIf [] (GBin "||" (GBin "!=" (GVar "err") GNil) (GUn "!" (GVar "keepGoing"))) [SReturn [(GVar "false"); (GVar "err")]] [];
+    SIf [] (GVar "saveMem") [SAssign [(GVar "choiceT")] "=" [GNil];
+    SAssign [(GVar "nNode"); (GVar "_")] "=" [(GCall "n.read" [(GVar "o")])];
+    SAssign [(GVar "nItemLoc")] "=" [(GUn "&" (GVar "nNode.item"))];
+    SAssign [(GVar "nNode")] "=" [GNil]] [];
+    SAssign [(GVar "nItem"); (GVar "err")] ":=" [(GCall "nItemLoc.read" [(GVar "t"); (GVar "withValue")])];
+    SIf [] (GBin "!=" (GVar "err") GNil) [SReturn [(GVar "false"); (GVar "err")]] [];
+    SIf [] (GUn "!" (GCall "visitor" [(GVar "nItem"); (GVar "depth")])) [SReturn [(GVar "false"); GNil]] [];
+    SIf [] (GVar "saveMem") [SAssign [(GVar "nNode"); (GVar "_")] "=" [(GCall "n.read" [(GVar "o")])];
+    SAssign [(GVar "n")] "=" [GNil];
+    SAssign [(GVar "_"); (GVar "_"); (GVar "choiceF")] "=" [(GCall "choiceFunc" [(GCall "t.compare" [(GVar "target"); (GVar "nItem.Key")]); (GVar "nNode")])]] []] [];
+    SReturn [(GCall "o.visitNodes" [(GVar "t"); (GVar "choiceF"); (GVar "target"); (GVar "withValue"); (GVar "visitor"); (GBin "+" (GVar "depth") (GInt 1)); (GVar "choiceFunc")])]]);
+  ("Store.walk",
+    [SAssign [(GVar "rnl")] ":=" [(GCall "t.rootAddRef" [])];
+    SDefer (GCall "t.rootDecRef" [(GVar "rnl")]);
+    SAssign [(GVar "n")] ":=" [(GVar "rnl.root")];
+    SAssign [(GVar "nNode"); (GVar "err")] ":=" [(GCall "n.read" [(GVar "o")])];
+    SIf [] (GBin "||" (GBin "||" (GBin "!=" (GVar "err") GNil) (GCall "n.isEmpty" [])) (GBin "==" (GVar "nNode") GNil)) [SReturn [GNil; (GVar "err")]] [];
+    SFor [] None [] [SAssign [(GVar "child"); (GVar "ok")] ":=" [(GCall "cfn" [(GVar "nNode")])];
+    SIf [] (GUn "!" (GVar "ok")) [SReturn [GNil; GNil]] [];
+    SAssign [(GVar "childNode"); (GVar "err")] ":=" [(GCall "child.read" [(GVar "o")])];
+    SIf [] (GBin "!=" (GVar "err") GNil) [SReturn [GNil; (GVar "err")]] [];
+    SIf [] (GBin "||" (GCall "child.isEmpty" []) (GBin "==" (GVar "childNode") GNil)) [SAssign [(GVar "i"); (GVar "err")] ":=" [(GCall "nNode.item.read" [(GVar "t"); (GVar "withValue")])];
+    SIf [] (GBin "!=" (GVar "err") GNil) [SReturn [GNil; (GVar "err")]] [];
+    SExpr (GCall "o.ItemAddRef" [(GVar "t"); (GVar "i")]);
+    SReturn [(GVar "i"); GNil]] [];
+    SAssign [(GVar "nNode")] "=" [(GVar "childNode")]]]);
+  ("Store.writeRoots",
+    [SAssign [(GVar "sJSON"); (GVar "err")] ":=" [(GCall "json.Marshal" [(GVar "rnls")])];
+    SIf [] (GBin "!=" (GVar "err") GNil) [SReturn [(GVar "err")]] [];
+    SAssign [(GVar "offset")] ":=" [(GCall "atomic.LoadInt64" [(GUn "&" (GVar "s.size"))])];
+    SAssign [(GVar "length")] ":=" [(GBin "+" (GBin "+" (GBin "+" (GBin "+" (GBin "+" (GBin "+" (GBin "*" (GInt 2) (GCall "len" [(GVar "MagicBeg")])) (GInt 4)) (GInt 4)) (GCall "len" [(GVar "sJSON")])) (GInt 8)) (GInt 4)) (GBin "*" (GInt 2) (GCall "len" [(GVar "MagicEnd")])))];
+    SAssign [(GVar "b")] ":=" [(GCall "bytes.NewBuffer" [(GCall "[:]" [(GCall "make" [(GOther "[]byte"); (GVar "length")]); GNil; (GInt 0)])])];
+    SExpr (GCall "b.Write" [(GVar "MagicBeg")]);
+    SExpr (GCall "b.Write" [(GVar "MagicBeg")]);
+    SAssign [(GVar "err")] "=" [(GCall "binary.Write" [(GVar "b"); (GVar "binary.BigEndian"); (GInt 4)])];
+    SIf [] (GBin "!=" (GVar "err") GNil) [SReturn [(GVar "err")]] [];
+    SAssign [(GVar "err")] "=" [(GCall "binary.Write" [(GVar "b"); (GVar "binary.BigEndian"); (GCall "uint32" [(GVar "length")])])];
+    SIf [] (GBin "!=" (GVar "err") GNil) [SReturn [(GVar "err")]] [];
+    SExpr (GCall "b.Write" [(GVar "sJSON")]);
+    SAssign [(GVar "err")] "=" [(GCall "binary.Write" [(GVar "b"); (GVar "binary.BigEndian"); (GCall "int64" [(GVar "offset")])])];
+    SIf [] (GBin "!=" (GVar "err") GNil) [SReturn [(GVar "err")]] [];
+    SAssign [(GVar "err")] "=" [(GCall "binary.Write" [(GVar "b"); (GVar "binary.BigEndian"); (GCall "uint32" [(GVar "length")])])];
+    SIf [] (GBin "!=" (GVar "err") GNil) [SReturn [(GVar "err")]] [];
+    SExpr (GCall "b.Write" [(GVar "MagicEnd")]);
+    SExpr (GCall "b.Write" [(GVar "MagicEnd")]);
+    SIf [SAssign [(GVar "_"); (GVar "err")] ":=" [(GCall "s.file.WriteAt" [(GCall "[:]" [(GCall "b.Bytes" []); GNil; (GVar "length")]); (GVar "offset")])]] (GBin "!=" (GVar "err") GNil) [SReturn [(GVar "err")]] [];
+    SExpr (GCall "atomic.StoreInt64" [(GUn "&" (GVar "s.size")); (GBin "+" (GVar "offset") (GCall "int64" [(GVar "length")]))]);
+    SReturn [GNil]]);
+  ("ascendChoice",
+    [SReturn [(GBin "<=" (GVar "cmp") (GInt 0)); (GUn "&" (GVar "n.left")); (GUn "&" (GVar "n.right"))]]);
+  ("collNames",
+    [SAssign [(GVar "res")] ":=" [(GCall "make" [(GOther "[]string"); (GInt 0); (GCall "len" [(GVar "coll")])])];
+    SRange (GVar "name") GNil (GVar "coll") [SAssign [(GVar "res")] "=" [(GCall "append" [(GVar "res"); (GVar "name")])]];
+    SExpr (GCall "sort.Strings" [(GVar "res")]);
+    SReturn [(GVar "res")]]);
+  ("copyColl",
+    [SAssign [(GVar "res")] ":=" [(GCall "make" [(GOther "map[string]*Collection")])];
+    SRange (GVar "name") (GVar "c") (GVar "orig") [SAssign [(GCall "[]" [(GVar "res"); (GVar "name")])] "=" [(GVar "c")]];
+    SReturn [(GVar "res")]]);
+  ("descendChoice",
+    [SReturn [(GBin ">" (GVar "cmp") (GInt 0)); (GUn "&" (GVar "n.right")); (GUn "&" (GVar "n.left"))]]);
+  ("dump",
+    [SIf [] (GCall "n.isEmpty" []) [SReturn []] [];
+    SAssign [(GVar "nNode"); (GVar "_")] ":=" [(GCall "n.read" [(GVar "o")])];
+    SExpr (GCall "dump" [(GVar "o"); (GUn "&" (GVar "nNode.left")); (GBin "+" (GVar "level") (GInt 1))]);
+    SExpr (GCall "dumpIndent" [(GVar "level")]);
+    SAssign [(GVar "k")] ":=" [(GLit """<evicted>""")];
+    SIf [] (GBin "!=" (GCall "nNode.item.Item" []) GNil) [SAssign [(GVar "k")] "=" [(GCall "string" [(GSel (GCall "nNode.item.Item" []) "Key")])]] [];
+    SExpr (GCall "fmt.Printf" [(GLit """%p - %v\n"""); (GVar "nNode"); (GVar "k")]);
+    SExpr (GCall "dump" [(GVar "o"); (GUn "&" (GVar "nNode.right")); (GBin "+" (GVar "level") (GInt 1))])]);
+  ("dumpIndent",
+    [SFor [SAssign [(GVar "i")] ":=" [(GInt 0)]] (Some (GBin "<" (GVar "i") (GVar "level"))) [SIncDec (GVar "i") true] [SExpr (GCall "fmt.Print" [(GLit """ """)])]]);
+  ("itemBa.getKeyLength",
+    [SReturn [(GVar "ds.keyLength")]]);
+  ("itemBa.getLength",
+    [SReturn [(GVar "ds.length")]]);
+  ("itemBa.getPriority",
+    [SReturn [(GVar "ds.priority")]]);
+  ("itemBa.getValLength",
+    [SReturn [(GVar "ds.valLength")]]);
+  ("itemBa.populate",
+    [SAssign [(GVar "ds.length")] "=" [(GCall "binary.BigEndian.Uint32" [(GCall "[:]" [(GVar "b"); (GInt 0); (GInt 4)])])];
+    SIf [] (GBin "==" (GInt 4) (GInt 2)) [SAssign [(GVar "ds.keyLength")] "=" [(GCall "keyP" [(GCall "binary.BigEndian.Uint16" [(GCall "[:]" [(GVar "b"); (GInt 4); (GInt 8)])])])]] [SAssign [(GVar "ds.keyLength")] "=" [(GCall "keyP" [(GCall "binary.BigEndian.Uint32" [(GCall "[:]" [(GVar "b"); (GInt 4); (GInt 8)])])])]];
+    SAssign [(GVar "ds.valLength")] "=" [(GCall "binary.BigEndian.Uint32" [(GCall "[:]" [(GVar "b"); (GInt 8); (GInt 12)])])];
+    SAssign [(GVar "ds.priority")] "=" [(GCall "int32" [(GCall "binary.BigEndian.Uint32" [(GCall "[:]" [(GVar "b"); (GInt 12); (GInt 16)])])])];
+    SReturn [(GVar "ds")]]);
+  ("itemBa.render",
+    [SAssign [(GVar "b")] ":=" [(GCall "make" [(GOther "[]byte"); (GVar "hlength")])];
+    SExpr (GCall "binary.BigEndian.PutUint32" [(GCall "[:]" [(GVar "b"); (GInt 0); (GInt 4)]); (GCall "uint32" [(GVar "ds.length")])]);
+    SIf [] (GBin "==" (GInt 4) (GInt 2)) [SExpr (GCall "binary.BigEndian.PutUint16" [(GCall "[:]" [(GVar "b"); (GInt 4); (GInt 8)]); (GCall "uint16" [(GVar "ds.keyLength")])])] [SExpr (GCall "binary.BigEndian.PutUint32" [(GCall "[:]" [(GVar "b"); (GInt 4); (GInt 8)]); (GCall "uint32" [(GVar "ds.keyLength")])])];
+    SExpr (GCall "binary.BigEndian.PutUint32" [(GCall "[:]" [(GVar "b"); (GInt 8); (GInt 12)]); (GCall "uint32" [(GVar "ds.valLength")])]);
+    SExpr (GCall "binary.BigEndian.PutUint32" [(GCall "[:]" [(GVar "b"); (GInt 12); (GInt 16)]); (GCall "uint32" [(GVar "ds.priority")])]);
+    SReturn [(GVar "b")]]);
+  ("itemLoc.Copy",
+    [SIf [] (GBin "==" (GVar "src") GNil) [SExpr (GCall "iloc.Copy" [(GUn "&" (GVar "emptyItemLoc"))]);
+    SReturn []] [];
+    SIf [] (GVar "itemLocMutex") [SExpr (GCall "itemLocGL.Lock" []);
+    SDefer (GCall "itemLocGL.Unlock" [])] [];
+    SAssign [(GVar "iloc.loc")] "=" [(GVar "src.loc")];
+    SAssign [(GVar "iloc.item")] "=" [(GVar "src.item")]]);
+  ("itemLoc.Item",
+    [SIf [] (GVar "itemLocMutex") [SExpr (GCall "itemLocGL.RLock" []);
+    SDefer (GCall "itemLocGL.RUnlock" [])] [];
+    SReturn [(GVar "iloc.item")]]);
+  ("itemLoc.Loc",
+    [SIf [] (GVar "itemLocMutex") [SExpr (GCall "itemLocGL.RLock" []);
+    SDefer (GCall "itemLocGL.RUnlock" [])] [];
+    SReturn [(GVar "iloc.loc")]]);
+  ("itemLoc.NumBytes",
+    [SAssign [(GVar "loc")] ":=" [(GCall "iloc.Loc" [])];
+    SIf [] (GCall "loc.isEmpty" []) [SAssign [(GVar "i")] ":=" [(GCall "iloc.Item" [])];
+    SIf [] (GBin "==" (GVar "i") GNil) [SReturn [(GInt 0)]] [];
+    SReturn [(GCall "i.NumBytes" [(GVar "c")])]] [];
+    SReturn [(GBin "-" (GCall "int" [(GVar "loc.Length")]) (GInt 16))]]);
+  ("itemLoc.casItem",
+    [SIf [] (GVar "itemLocMutex") [SExpr (GCall "itemLocGL.Lock" []);
+    SDefer (GCall "itemLocGL.Unlock" [])] [];
+    SIf [] (GBin "==" (GVar "iloc.item") (GVar "o")) [SAssign [(GVar "iloc.item")] "=" [(GVar "n")];
+    SReturn [(GVar "true")]] [];
+    SReturn [(GVar "false")]]);
+  ("itemLoc.read",
+    [SIf [] (GBin "==" (GVar "iloc") GNil) [SReturn [GNil; GNil]] [];
+    SAssign [(GVar "icur")] "=" [(GCall "iloc.Item" [])];
+    SIf [] (GBin "||" (GBin "==" (GVar "icur") GNil) (GBin "&&" (GBin "==" (GVar "icur.Val") GNil) (GVar "withValue"))) [SAssign [(GVar "loc")] ":=" [(GCall "iloc.Loc" [])];
+    SIf [] (GCall "loc.isEmpty" []) [SReturn [GNil; GNil]] [];
+    SIf [] (GBin "<" (GVar "loc.Length") (GInt 16)) [SReturn [GNil; (GCall "fmt.Errorf" [(GLit """unexpected item loc.Length: %v < %v"""); (GVar "loc.Length"); (GInt 16)])]] [];
+    SAssign [(GVar "b")] ":=" [(GCall "make" [(GOther "[]byte"); (GInt 16)])];
+    SIf [SAssign [(GVar "_"); (GVar "err")] ":=" [(GCall "c.store.file.ReadAt" [(GVar "b"); (GVar "loc.Offset")])]] (GBin "!=" (GVar "err") GNil) [SReturn [GNil; (GVar "err")]] [];
+    SVar "ds" None;
+    SAssign [(GVar "keyLength")] ":=" [(GCall "ds.populate(b).getKeyLength" [])];
+    SAssign [(GVar "i")] ":=" [(GCall "c.store.ItemAlloc" [(GVar "c"); (GCall "uint32" [(GVar "keyLength")])])];
+    SIf [] (GBin "==" (GVar "i") GNil) [SReturn [GNil; (GCall "errors.New" [(GLit """ItemAlloc() failed""")])]] [];
+    SAssign [(GVar "i.Priority")] "=" [(GCall "ds.getPriority" [])];
+    SAssign [(GVar "valLength")] ":=" [(GCall "ds.getValLength" [])];
+    SIf [] (GBin "!=" (GCall "ds.getLength" []) (GBin "+" (GBin "+" (GInt 16) (GCall "uint32" [(GVar "keyLength")])) (GVar "valLength"))) [SExpr (GCall "c.store.ItemDecRef" [(GVar "c"); (GVar "i")]);
+    SReturn [GNil; (GCall "errors.New" [(GLit """mismatched itemLoc lengths""")])]] [];
+    SIf [] (GBin "!=" (GInt 16) (GInt 16)) [SExpr (GCall "c.store.ItemDecRef" [(GVar "c"); (GVar "i")]);
+    SReturn [GNil; (GCall "fmt.Errorf" [(GLit """read pos != itemLoc_hdrLength, %v != %v"""); (GInt 16); (GInt 16)])]] [];
+    SIf [SAssign [(GVar "_"); (GVar "err")] ":=" [(GCall "c.store.file.ReadAt" [(GVar "i.Key"); (GBin "+" (GVar "loc.Offset") (GInt 16))])]] (GBin "!=" (GVar "err") GNil) [SExpr (GCall "c.store.ItemDecRef" [(GVar "c"); (GVar "i")]);
+    SReturn [GNil; (GVar "err")]] [];
+    SIf [] (GVar "withValue") [SAssign [(GVar "err")] ":=" [(GCall "c.store.ItemValRead" [(GVar "c"); (GVar "i"); (GVar "c.store.file"); (GBin "+" (GBin "+" (GVar "loc.Offset") (GInt 16)) (GCall "int64" [(GVar "keyLength")])); (GVar "valLength")])];
+    SIf [] (GBin "!=" (GVar "err") GNil) [SExpr (GCall "c.store.ItemDecRef" [(GVar "c"); (GVar "i")]);
+    SReturn [GNil; (GVar "err")]] []] [];
+    SIf [] (GBin "!=" (GVar "c.store.callbacks.AfterItemRead") GNil) [SAssign [(GVar "i"); (GVar "err")] "=" [(GCall "c.store.callbacks.AfterItemRead" [(GVar "c"); (GVar "i")])];
+    SIf [] (GBin "!=" (GVar "err") GNil) [SExpr (GCall "c.store.ItemDecRef" [(GVar "c"); (GVar "i")]);
+    SReturn [GNil; (GVar "err")]] []] [];
+    SIf [] (GUn "!" (GCall "iloc.casItem" [(GVar "icur"); (GVar "i")])) [SExpr (GCall "c.store.ItemDecRef" [(GVar "c"); (GVar "i")]);
+    SReturn [(GCall "iloc.read" [(GVar "c"); (GVar "withValue")])]] [];
+    SIf [] (GBin "!=" (GVar "icur") GNil) [SExpr (GCall "c.store.ItemDecRef" [(GVar "c"); (GVar "icur")])] [];
+    SAssign [(GVar "icur")] "=" [(GVar "i")]] [];
+    SReturn [(GVar "icur"); GNil]]);
+  ("itemLoc.setLoc",
+    [SIf [] (GVar "itemLocMutex") [SExpr (GCall "itemLocGL.Lock" []);
+    SDefer (GCall "itemLocGL.Unlock" [])] [];
+    SAssign [(GVar "iloc.loc")] "=" [(GVar "n")]]);
+  ("itemLoc.write",
+    [SIf [] (GCall "iloc.Loc().isEmpty" []) [SAssign [(GVar "iItem")] ":=" [(GCall "iloc.Item" [])];
+    SIf [] (GBin "==" (GVar "iItem") GNil) [SReturn [(GCall "errors.New" [(GLit """itemLoc.write with nil item""")])]] [];
+    SIf [] (GBin "!=" (GVar "c.store.callbacks.BeforeItemWrite") GNil) [SAssign [(GVar "iItem"); (GVar "err")] "=" [(GCall "c.store.callbacks.BeforeItemWrite" [(GVar "c"); (GVar "iItem")])];
+    SIf [] (GBin "!=" (GVar "err") GNil) [SReturn [(GVar "err")]] []] [];
+    SAssign [(GVar "offset")] ":=" [(GCall "atomic.LoadInt64" [(GUn "&" (GVar "c.store.size"))])];
+    SAssign [(GVar "hlength")] ":=" [(GBin "+" (GInt 16) (GCall "len" [(GVar "iItem.Key")]))];
+    SAssign [(GVar "vlength")] ":=" [(GCall "iItem.NumValBytes" [(GVar "c")])];
+    SAssign [(GVar "ilength")] ":=" [(GBin "+" (GVar "hlength") (GVar "vlength"))];
+    SAssign [(GVar "ds")] ":=" [(GOther "itemBa{  length:  uint32(ilength),  keyLength: keyP(len(iItem.Key)),  valLength: uint32(vlength),  priority: iItem.Priority, }")];
+    SAssign [(GVar "b")] ":=" [(GCall "ds.render" [(GVar "hlength")])];
+    SAssign [(GVar "pos")] ":=" [(GBin "+" (GInt 16) (GCall "copy" [(GCall "[:]" [(GVar "b"); (GInt 16); GNil]); (GVar "iItem.Key")]))];
+    SIf [] (GBin "!=" (GVar "pos") (GVar "hlength")) [SReturn [(GCall "fmt.Errorf" [(GLit """itemLoc.write() pos: %v didn't match hlength: %v"""); (GVar "pos"); (GVar "hlength")])]] [];
+    SIf [SAssign [(GVar "_"); (GVar "err")] ":=" [(GCall "c.store.file.WriteAt" [(GVar "b"); (GVar "offset")])]] (GBin "!=" (GVar "err") GNil) [SReturn [(GVar "err")]] [];
+    SAssign [(GVar "err")] ":=" [(GCall "c.store.ItemValWrite" [(GVar "c"); (GVar "iItem"); (GVar "c.store.file"); (GBin "+" (GVar "offset") (GCall "int64" [(GVar "pos")]))])];
+    SIf [] (GBin "!=" (GVar "err") GNil) [SReturn [(GVar "err")]] [];
+    SExpr (GCall "atomic.StoreInt64" [(GUn "&" (GVar "c.store.size")); (GBin "+" (GVar "offset") (GCall "int64" [(GVar "ilength")]))]);
+    SExpr (GCall "iloc.setLoc" [(GUn "&" (GOther "ploc{Offset: offset, Length: uint32(ilength)}"))])] [];
+    SReturn [GNil]]);
+  ("iterator.Close",
+    [SIf [] (GVar "it.closed") [SReturn []] [];
+    SExpr (GCall "close" [(GVar "it.next")]);
+    SAssign [(GVar "it.closed")] "=" [(GVar "true")]]);
+  ("iterator.Err",
+    [SReturn [(GVar "it.err")]]);
+  ("iterator.Next",
+    [SIf [] (GVar "it.closed") [SReturn [(GVar "false")]] [];
+    SOther "it.next <- true";
+    SAssign [(GVar "i"); (GVar "ok")] ":=" [(GUn "<-" (GVar "it.items"))];
+    SIf [] (GBin "||" (GUn "!" (GVar "ok")) (GBin "!=" (GVar "it.err") GNil)) [SExpr (GCall "close" [(GVar "it.next")]);
+    SAssign [(GVar "it.closed")] "=" [(GVar "true")];
+    SReturn [(GVar "false")]] [];
+    SAssign [(GVar "it.result")] "=" [(GVar "i")];
+    SReturn [(GVar "true")]]);
+  ("iterator.Result",
+    [SReturn [(GVar "it.result")]]);
+  ("newIterator",
+    [SAssign [(GVar "it")] ":=" [(GOther "iterator{}")];
+    SAssign [(GVar "it.target")] "=" [(GVar "target")];
+    SAssign [(GVar "it.withValue")] "=" [(GVar "withValue")];
+    SAssign [(GVar "it.next")] "=" [(GCall "make" [(GOther "chan bool")])];
+    SAssign [(GVar "it.items")] "=" [(GCall "make" [(GOther "chan *Item")])];
+    SReturn [(GUn "&" (GVar "it"))]]);
+  ("node.Evict",
+    [SIf [] (GUn "!" (GCall "n.item.Loc().isEmpty" [])) [SAssign [(GVar "i")] ":=" [(GCall "n.item.Item" [])];
+    SIf [] (GBin "&&" (GBin "!=" (GVar "i") GNil) (GCall "n.item.casItem" [(GVar "i"); GNil])) [SReturn [(GVar "i")]] []] [];
+    SReturn [GNil]]);
+  ("node.populateDiskStruct",
+    [SAssign [(GVar "b")] "=" [(GCall "make" [(GOther "[]byte"); (GVar "length")])];
+    SVar "pos" None;
+    SAssign [(GVar "pos")] "=" [(GCall "n.item.Loc().write" [(GVar "b"); (GVar "pos")])];
+    SAssign [(GVar "pos")] "=" [(GCall "n.left.Loc().write" [(GVar "b"); (GVar "pos")])];
+    SAssign [(GVar "pos")] "=" [(GCall "n.right.Loc().write" [(GVar "b"); (GVar "pos")])];
+    SExpr (GCall "binary.BigEndian.PutUint64" [(GCall "[:]" [(GVar "b"); (GVar "pos"); (GBin "+" (GVar "pos") (GInt 8))]); (GVar "n.numNodes")]);
+    SAssign [(GVar "pos")] "+=" [(GInt 8)];
+    SExpr (GCall "binary.BigEndian.PutUint64" [(GCall "[:]" [(GVar "b"); (GVar "pos"); (GBin "+" (GVar "pos") (GInt 8))]); (GVar "n.numBytes")]);
+    SAssign [(GVar "pos")] "+=" [(GInt 8)];
+    SIf [] (GBin "!=" (GVar "pos") (GVar "length")) [SReturn [(GVar "b"); (GCall "fmt.Errorf" [(GLit """nodeLoc.write() pos: %v didn't match length: %v"""); (GVar "pos"); (GVar "length")])]] [];
+    SReturn []]);
+  ("node.setNumBytes",
+    [SAssign [(GVar "n.numBytes")] "=" [(GCall "binary.BigEndian.Uint64" [(GCall "[:]" [(GVar "b"); (GVar "pos"); (GBin "+" (GVar "pos") (GInt 8))])])]]);
+  ("node.setNumNodes",
+    [SAssign [(GVar "n.numNodes")] "=" [(GCall "binary.BigEndian.Uint64" [(GCall "[:]" [(GVar "b"); (GVar "pos"); (GBin "+" (GVar "pos") (GInt 8))])])]]);
+  ("nodeLoc.Copy",
+    [SIf [] (GBin "==" (GVar "src") GNil) [SReturn [(GCall "nloc.Copy" [(GUn "&" (GVar "emptyNodeLoc"))])]] [];
+    SIf [] (GVar "nodeMutex") [SExpr (GCall "nodeLocGL.Lock" []);
+    SDefer (GCall "nodeLocGL.Unlock" [])] [];
+    SAssign [(GVar "nloc.loc")] "=" [(GVar "src.loc")];
+    SAssign [(GVar "nloc.node")] "=" [(GVar "src.node")];
+    SReturn [(GVar "nloc")]]);
+  ("nodeLoc.Loc",
+    [SIf [] (GVar "nodeMutex") [SExpr (GCall "nodeLocGL.RLock" []);
+    SDefer (GCall "nodeLocGL.RUnlock" [])] [];
+    SReturn [(GVar "nloc.loc")]]);
+  ("nodeLoc.LocNode",
+    [SIf [] (GVar "nodeMutex") [SExpr (GCall "nodeLocGL.RLock" []);
+    SDefer (GCall "nodeLocGL.RUnlock" [])] [];
+    SReturn [(GVar "nloc.loc"); (GVar "nloc.node")]]);
+  ("nodeLoc.Node",
+    [SIf [] (GVar "nodeMutex") [SExpr (GCall "nodeLocGL.RLock" []);
+    SDefer (GCall "nodeLocGL.RUnlock" [])] [];
+    SReturn [(GVar "nloc.node")]]);
+  ("nodeLoc.isEmpty",
+    [SIf [] (GVar "nodeMutex") [SExpr (GCall "nodeLocGL.RLock" []);
+    SDefer (GCall "nodeLocGL.RUnlock" [])] [];
+    SReturn [(GBin "||" (GBin "==" (GVar "nloc") GNil) (GBin "&&" (GCall "nloc.loc.isEmpty" []) (GBin "==" (GVar "nloc.node") GNil)))]]);
+  ("nodeLoc.read",
+    [SIf [] (GBin "==" (GVar "nloc") GNil) [SReturn [GNil; GNil]] [];
+    SAssign [(GVar "loc"); (GVar "n")] ":=" [(GCall "nloc.LocNode" [])];
+    SIf [] (GBin "!=" (GVar "n") GNil) [SReturn [(GVar "n"); GNil]] [];
+    SIf [] (GCall "loc.isEmpty" []) [SReturn [GNil; GNil]] [];
+    SIf [] (GBin "!=" (GVar "loc.Length") (GInt 52)) [SReturn [GNil; (GCall "fmt.Errorf" [(GLit """unexpected node loc.Length: %v != %v"""); (GVar "loc.Length"); (GInt 52)])]] [];
+    SAssign [(GVar "b")] ":=" [(GCall "make" [(GOther "[]byte"); (GVar "loc.Length")])];
+    SIf [SAssign [(GVar "_"); (GVar "err")] ":=" [(GCall "o.file.ReadAt" [(GVar "b"); (GVar "loc.Offset")])]] (GBin "!=" (GVar "err") GNil) [SReturn [GNil; (GVar "err")]] [];
+    SExpr (GCall "atomic.AddUint64" [(GUn "&" (GVar "o.nodeAllocs")); (GInt 1)]);
+    SAssign [(GVar "n"); (GVar "err")] "=" [(GCall "populateNode" [(GVar "b")])];
+    SIf [] (GBin "!=" (GVar "err") GNil) [SReturn [(GVar "n"); (GVar "err")]] [];
+    SExpr (GCall "nloc.setNode" [(GVar "n")]);
+    SReturn [(GVar "n"); GNil]]);
+  ("nodeLoc.setLoc",
+    [SIf [] (GVar "nodeMutex") [SExpr (GCall "nodeLocGL.Lock" []);
+    SDefer (GCall "nodeLocGL.Unlock" [])] [];
+    SAssign [(GVar "nloc.loc")] "=" [(GVar "n")]]);
+  ("nodeLoc.setNode",
+    [SIf [] (GVar "nodeMutex") [SExpr (GCall "nodeLocGL.Lock" []);
+    SDefer (GCall "nodeLocGL.Unlock" [])] [];
+    SAssign [(GVar "nloc.node")] "=" [(GVar "n")]]);
+  ("nodeLoc.write",
+    [SAssign [(GVar "loc"); (GVar "node")] ":=" [(GCall "nloc.LocNode" [])];
+    SIf [] (GBin "&&" (GBin "!=" (GVar "nloc") GNil) (GCall "loc.isEmpty" [])) [SIf [] (GBin "==" (GVar "node") GNil) [SReturn [GNil]] [];
+    SAssign [(GVar "offset")] ":=" [(GCall "o.getSize" [])];
+    SAssign [(GVar "length")] ":=" [(GInt 52)];
+    SAssign [(GVar "b"); (GVar "err")] ":=" [(GCall "node.populateDiskStruct" [(GVar "length")])];
+    SIf [] (GBin "!=" (GVar "err") GNil) [SReturn [(GVar "err")]] [];
+    SIf [SAssign [(GVar "_"); (GVar "err")] ":=" [(GCall "o.file.WriteAt" [(GVar "b"); (GVar "offset")])]] (GBin "!=" (GVar "err") GNil) [SReturn [(GVar "err")]] [];
+    SExpr (GCall "o.setSize" [(GBin "+" (GVar "offset") (GCall "int64" [(GVar "length")]))]);
+    SExpr (GCall "nloc.setLoc" [(GUn "&" (GOther "ploc{Offset: offset, Length: uint32(length)}"))])] [];
+    SReturn [GNil]]);
+  ("numInfo",
+    [SAssign [(GVar "leftNode"); (GVar "err")] ":=" [(GCall "left.read" [(GVar "o")])];
+    SIf [] (GBin "!=" (GVar "err") GNil) [SReturn [(GInt 0); (GInt 0); (GInt 0); (GInt 0); (GVar "err")]] [];
+    SAssign [(GVar "rightNode"); (GVar "err")] ":=" [(GCall "right.read" [(GVar "o")])];
+    SIf [] (GBin "!=" (GVar "err") GNil) [SReturn [(GInt 0); (GInt 0); (GInt 0); (GInt 0); (GVar "err")]] [];
+    SIf [] (GBin "&&" (GUn "!" (GCall "left.isEmpty" [])) (GBin "!=" (GVar "leftNode") GNil)) [SAssign [(GVar "leftNum")] "=" [(GVar "leftNode.numNodes")];
+    SAssign [(GVar "leftBytes")] "=" [(GVar "leftNode.numBytes")]] [];
+    SIf [] (GBin "&&" (GUn "!" (GCall "right.isEmpty" [])) (GBin "!=" (GVar "rightNode") GNil)) [SAssign [(GVar "rightNum")] "=" [(GVar "rightNode.numNodes")];
+    SAssign [(GVar "rightBytes")] "=" [(GVar "rightNode.numBytes")]] [];
+    SReturn [(GVar "leftNum"); (GVar "leftBytes"); (GVar "rightNum"); (GVar "rightBytes"); GNil]]);
+  ("ploc.isEmpty",
+    [SReturn [(GBin "||" (GBin "==" (GVar "p") GNil) (GBin "&&" (GBin "==" (GVar "p.Offset") (GInt 0)) (GBin "==" (GVar "p.Length") (GInt 0))))]]);
+  ("ploc.read",
+    [SAssign [(GVar "p.Offset")] "=" [(GCall "int64" [(GCall "binary.BigEndian.Uint64" [(GCall "[:]" [(GVar "b"); (GVar "pos"); (GBin "+" (GVar "pos") (GInt 8))])])])];
+    SAssign [(GVar "pos")] "+=" [(GInt 8)];
+    SAssign [(GVar "p.Length")] "=" [(GCall "binary.BigEndian.Uint32" [(GCall "[:]" [(GVar "b"); (GVar "pos"); (GBin "+" (GVar "pos") (GInt 4))])])];
+    SAssign [(GVar "pos")] "+=" [(GInt 4)];
+    SIf [] (GCall "p.isEmpty" []) [SReturn [GNil; (GVar "pos")]] [];
+    SReturn [(GVar "p"); (GVar "pos")]]);
+  ("ploc.write",
+    [SIf [] (GBin "==" (GVar "p") GNil) [SReturn [(GCall "plocEmpty.write" [(GVar "b"); (GVar "pos")])]] [];
+    SExpr (GCall "binary.BigEndian.PutUint64" [(GCall "[:]" [(GVar "b"); (GVar "pos"); (GBin "+" (GVar "pos") (GInt 8))]); (GCall "uint64" [(GVar "p.Offset")])]);
+    SAssign [(GVar "pos")] "+=" [(GInt 8)];
+    SExpr (GCall "binary.BigEndian.PutUint32" [(GCall "[:]" [(GVar "b"); (GVar "pos"); (GBin "+" (GVar "pos") (GInt 4))]); (GVar "p.Length")]);
+    SAssign [(GVar "pos")] "+=" [(GInt 4)];
+    SReturn [(GVar "pos")]]);
+  ("populateNode",
+    [SAssign [(GVar "n")] "=" [(GUn "&" (GOther "node{}"))];
+    SVar "p" None;
+    SVar "pos" None;
+    SAssign [(GVar "p")] "=" [(GUn "&" (GOther "ploc{}"))];
+    SAssign [(GVar "p"); (GVar "pos")] "=" [(GCall "p.read" [(GVar "b"); (GVar "pos")])];
+    SAssign [(GVar "n.item.loc")] "=" [(GVar "p")];
+    SAssign [(GVar "p")] "=" [(GUn "&" (GOther "ploc{}"))];
+    SAssign [(GVar "p"); (GVar "pos")] "=" [(GCall "p.read" [(GVar "b"); (GVar "pos")])];
+    SAssign [(GVar "n.left.loc")] "=" [(GVar "p")];
+    SAssign [(GVar "p")] "=" [(GUn "&" (GOther "ploc{}"))];
+    SAssign [(GVar "p"); (GVar "pos")] "=" [(GCall "p.read" [(GVar "b"); (GVar "pos")])];
+    SAssign [(GVar "n.right.loc")] "=" [(GVar "p")];
+    SExpr (GCall "n.setNumNodes" [(GVar "b"); (GVar "pos")]);
+    SAssign [(GVar "pos")] "+=" [(GInt 8)];
+    SExpr (GCall "n.setNumBytes" [(GVar "b"); (GVar "pos")]);
+    SAssign [(GVar "pos")] "+=" [(GInt 8)];
+    SIf [] (GBin "!=" (GVar "pos") (GCall "len" [(GVar "b")])) [SReturn [GNil; (GCall "fmt.Errorf" [(GLit """nodeLoc.read() pos: %v didn't match length: %v"""); (GVar "pos"); (GCall "len" [(GVar "b")])])]] [];
+    SReturn [(GVar "n"); GNil]]);
+  ("rootNodeLoc.MarshalJSON",
+    [SAssign [(GVar "loc")] ":=" [(GCall "rnl.root.Loc" [])];
+    SIf [] (GCall "loc.isEmpty" []) [SReturn [(GCall "json.Marshal" [(GVar "plocEmpty")])]] [];
+    SReturn [(GCall "json.Marshal" [(GVar "loc")])]]);
+  ("rootsReadError.Error",
+    [SReturn [(GCall "e.err.Error" [])]]);
+  ("toBa",
+    [SVar "bs" None;
+    SOther "switch v := st.(type) { case int:  bs = []byte(strconv.Itoa(v)) case []int:  var st string  var comma string  for _, j := range v {   st += comma + strconv.Itoa(j)   comma = "",""  }  bs = []byte(st) case string:  bs = []byte(v) case []byte:  bs = v case ByteAble:  bs = v.ToBa() default:  log.Fatalf(""Unknown Type in toBa Conversion %T\n"", st) }";
+    SReturn [(GVar "bs")]]);
+  ("withAllocLocks",
+    [SExpr (GCall "freeNodeLock.Lock" []);
+    SExpr (GCall "freeNodeLocLock.Lock" []);
+    SExpr (GCall "freeRootNodeLocLock.Lock" []);
+    SDefer (GCall "freeNodeLock.Unlock" []);
+    SDefer (GCall "freeNodeLocLock.Unlock" []);
+    SDefer (GCall "freeRootNodeLocLock.Unlock" []);
+    SExpr (GCall "cb" [])])
+].
